@@ -955,6 +955,14 @@ let w32 x =
 let w64 x =
   Z.modulo x (Z.pow (Zpos (XO XH)) (Zpos (XO (XO (XO (XO (XO (XO XH))))))))
 
+(** val s32 : z -> z **)
+
+let s32 x =
+  let y = w32 x in
+  if Z.ltb y (Z.pow (Zpos (XO XH)) (Zpos (XI (XI (XI (XI XH))))))
+  then y
+  else Z.sub y (Z.pow (Zpos (XO XH)) (Zpos (XO (XO (XO (XO (XO XH)))))))
+
 (** val s64 : z -> z **)
 
 let s64 x =
@@ -6596,23 +6604,24 @@ let rec elem_ok = function
   let rec go = function
   | [] -> true
   | g :: r ->
-    let GField (_, _, ft) = g in
+    let GField (e, _, ft) = g in
     (&&)
-      (match ft with
-       | TSlice et -> elem_ok et
-       | TMap (kt, vt) ->
-         (&&)
-           (match kt with
-            | TBool -> true
-            | TInt -> true
-            | TInt32 -> true
-            | TInt64 -> true
-            | TUint -> true
-            | TUint32 -> true
-            | TUint64 -> true
-            | TString -> true
-            | _ -> false) (elem_ok vt)
-       | _ -> elem_ok ft) (go r)
+      ((&&) e
+        (match ft with
+         | TSlice et -> elem_ok et
+         | TMap (kt, vt) ->
+           (&&)
+             (match kt with
+              | TBool -> true
+              | TInt -> true
+              | TInt32 -> true
+              | TInt64 -> true
+              | TUint -> true
+              | TUint32 -> true
+              | TUint64 -> true
+              | TString -> true
+              | _ -> false) (elem_ok vt)
+         | _ -> elem_ok ft)) (go r)
   in go fs
 | TSlice _ -> false
 | TMap (_, _) -> false
@@ -6846,3 +6855,3730 @@ let rec keys_distinct = function
         (keys_distinct x)) (go r)
   in go es
 | _ -> true
+
+(** val ctz_pos : positive -> z **)
+
+let rec ctz_pos = function
+| XO p' -> Z.add (Zpos XH) (ctz_pos p')
+| _ -> Z0
+
+(** val ctz : z -> z -> z **)
+
+let ctz dflt = function
+| Z0 -> dflt
+| Zpos p -> ctz_pos p
+| Zneg _ -> Z0
+
+type json_err =
+| JErrSyntax
+| JErrUnexpectedEOF
+| JErrType
+| JErrOverflow
+| JErrOther
+
+(** val index_byte_from : z -> bytes -> z -> z **)
+
+let rec index_byte_from i b c =
+  match b with
+  | [] -> Zneg XH
+  | x :: r -> if Z.eqb x c then i else index_byte_from (Z.add i (Zpos XH)) r c
+
+(** val index_byte : bytes -> z -> z **)
+
+let index_byte b c =
+  index_byte_from Z0 b c
+
+(** val ctz64 : z -> z **)
+
+let ctz64 x =
+  ctz (Zpos (XO (XO (XO (XO (XO (XO XH))))))) x
+
+(** val chunks64_fuel : nat -> bytes -> z list **)
+
+let rec chunks64_fuel fuel s =
+  match fuel with
+  | O -> []
+  | S f ->
+    if Z.leb (Zpos (XO (XO (XO XH)))) (len s)
+    then (le64 s) :: (chunks64_fuel f
+                       (skipn (S (S (S (S (S (S (S (S O)))))))) s))
+    else []
+
+(** val chunks64 : bytes -> z list **)
+
+let chunks64 s =
+  chunks64_fuel (length s) s
+
+(** val json_validAsciiPrint : z **)
+
+let json_validAsciiPrint =
+  Zpos (XO (XO (XO (XO (XO (XO (XO (XO (XO (XO (XO (XO (XO (XO (XO (XO (XO
+    (XO (XO (XO (XO (XO (XO (XO (XO (XO (XO (XO XH))))))))))))))))))))))))))))
+
+(** val json_noBackslash : z **)
+
+let json_noBackslash =
+  Zpos (XO (XO (XO (XO (XO (XO (XO (XO (XO (XO (XO (XO (XO (XO (XO (XO (XO
+    (XO (XO (XO (XO (XO (XO (XO (XO (XO (XO (XO (XO
+    XH)))))))))))))))))))))))))))))
+
+(** val json_Undefined : z **)
+
+let json_Undefined =
+  Z0
+
+(** val json_Null : z **)
+
+let json_Null =
+  Zpos XH
+
+(** val json_False : z **)
+
+let json_False =
+  Zpos (XO XH)
+
+(** val json_True : z **)
+
+let json_True =
+  Zpos (XI XH)
+
+(** val json_Uint : z **)
+
+let json_Uint =
+  Zpos (XI (XO XH))
+
+(** val json_Int : z **)
+
+let json_Int =
+  Zpos (XO (XI XH))
+
+(** val json_Float : z **)
+
+let json_Float =
+  Zpos (XI (XI XH))
+
+(** val json_String : z **)
+
+let json_String =
+  Zpos (XO (XO (XO XH)))
+
+(** val json_Unescaped : z **)
+
+let json_Unescaped =
+  Zpos (XI (XO (XO XH)))
+
+(** val json_Array : z **)
+
+let json_Array =
+  Zpos (XO (XO (XO (XO XH))))
+
+(** val json_Object : z **)
+
+let json_Object =
+  Zpos (XO (XO (XO (XO (XO XH)))))
+
+(** val json_sp : z **)
+
+let json_sp =
+  Zpos (XO (XO (XO (XO (XO XH)))))
+
+(** val json_ht : z **)
+
+let json_ht =
+  Zpos (XI (XO (XO XH)))
+
+(** val json_nl : z **)
+
+let json_nl =
+  Zpos (XO (XI (XO XH)))
+
+(** val json_cr : z **)
+
+let json_cr =
+  Zpos (XI (XO (XI XH)))
+
+(** val json_lsb : z **)
+
+let json_lsb =
+  Zpos (XI (XO (XO (XO (XO (XO (XO (XO (XI (XO (XO (XO (XO (XO (XO (XO (XI
+    (XO (XO (XO (XO (XO (XO (XO (XI (XO (XO (XO (XO (XO (XO (XO (XI (XO (XO
+    (XO (XO (XO (XO (XO (XI (XO (XO (XO (XO (XO (XO (XO (XI (XO (XO (XO (XO
+    (XO (XO (XO XH))))))))))))))))))))))))))))))))))))))))))))))))))))))))
+
+(** val json_msb : z **)
+
+let json_msb =
+  Zpos (XO (XO (XO (XO (XO (XO (XO (XI (XO (XO (XO (XO (XO (XO (XO (XI (XO
+    (XO (XO (XO (XO (XO (XO (XI (XO (XO (XO (XO (XO (XO (XO (XI (XO (XO (XO
+    (XO (XO (XO (XO (XI (XO (XO (XO (XO (XO (XO (XO (XI (XO (XO (XO (XO (XO
+    (XO (XO (XI (XO (XO (XO (XO (XO (XO (XO
+    XH)))))))))))))))))))))))))))))))))))))))))))))))))))))))))))))))
+
+(** val json_ParseFlags_has : z -> z -> bool **)
+
+let json_ParseFlags_has flags f =
+  negb (Z.eqb (and32 flags f) Z0)
+
+(** val json_skipSpacesN : bytes -> bytes * z **)
+
+let json_skipSpacesN b =
+  let k1_ = fun _ -> ([], Z0) in
+  let rec loop2_ l3_ i4_ =
+    match l3_ with
+    | [] -> k1_ ()
+    | _ :: t6_ ->
+      let tag7_ = at_ b i4_ in
+      if (||)
+           ((||) ((||) (Z.eqb tag7_ json_sp) (Z.eqb tag7_ json_ht))
+             (Z.eqb tag7_ json_nl)) (Z.eqb tag7_ json_cr)
+      then loop2_ t6_ (Z.add i4_ (Zpos XH))
+      else ((slice_from b i4_), i4_)
+  in loop2_ b Z0
+
+(** val json_skipSpaces : bytes -> bytes **)
+
+let json_skipSpaces b =
+  let k1_ = fun b0 -> b0 in
+  if (&&) (Z.gtb (len b) Z0)
+       (Z.leb (at_ b Z0) (Zpos (XO (XO (XO (XO (XO XH)))))))
+  then let (b0, _) = json_skipSpacesN b in k1_ b0
+  else k1_ b
+
+(** val json_trimTrailingSpacesN : nat -> bytes -> bytes option **)
+
+let json_trimTrailingSpacesN fuel b =
+  let i = subi64 (len b) (Zpos XH) in
+  let k1_ = fun i0 -> Some (slice_to b (addi64 i0 (Zpos XH))) in
+  let rec loop2_ f3_ i0 =
+    match f3_ with
+    | O -> None
+    | S f4_ ->
+      if Z.geb i0 Z0
+      then let k5_ = fun _ -> let i1 = subi64 i0 (Zpos XH) in loop2_ f4_ i1 in
+           let tag6_ = at_ b i0 in
+           if (||)
+                ((||) ((||) (Z.eqb tag6_ json_sp) (Z.eqb tag6_ json_ht))
+                  (Z.eqb tag6_ json_nl)) (Z.eqb tag6_ json_cr)
+           then k5_ ()
+           else k1_ i0
+      else k1_ i0
+  in loop2_ fuel i
+
+(** val json_trimTrailingSpaces : nat -> bytes -> bytes option **)
+
+let json_trimTrailingSpaces fuel b =
+  let k1_ = fun b0 -> Some b0 in
+  if (&&) (Z.gtb (len b) Z0)
+       (Z.leb (at_ b (subi64 (len b) (Zpos XH))) (Zpos (XO (XO (XO (XO (XO
+         XH)))))))
+  then obind (json_trimTrailingSpacesN fuel b) k1_
+  else k1_ b
+
+(** val json_internalParseFlags : nat -> bytes -> z option **)
+
+let json_internalParseFlags fuel b =
+  let flags = Z0 in
+  let b0 = json_skipSpaces b in
+  obind (json_trimTrailingSpaces fuel b0) (fun b1 ->
+    let k2_ = fun flags0 ->
+      let k1_ = fun flags1 -> Some flags1 in
+      if Z.eqb (index_byte b1 (Zpos (XO (XO (XI (XI (XI (XO XH)))))))) (Zneg
+           XH)
+      then let flags1 = or32 flags0 json_noBackslash in k1_ flags1
+      else k1_ flags0
+    in
+    if ascii_ValidPrint b1
+    then let flags0 = or32 flags json_validAsciiPrint in k2_ flags0
+    else k2_ flags)
+
+(** val json_hasNullPrefix : bytes -> bool **)
+
+let json_hasNullPrefix b =
+  (&&) (Z.geb (len b) (Zpos (XO (XO XH))))
+    (bytes_eqb (slice_to b (Zpos (XO (XO XH)))) ((Zpos (XO (XI (XI (XI (XO
+      (XI XH))))))) :: ((Zpos (XI (XO (XI (XO (XI (XI XH))))))) :: ((Zpos (XO
+      (XO (XI (XI (XO (XI XH))))))) :: ((Zpos (XO (XO (XI (XI (XO (XI
+      XH))))))) :: [])))))
+
+(** val json_hasTruePrefix : bytes -> bool **)
+
+let json_hasTruePrefix b =
+  (&&) (Z.geb (len b) (Zpos (XO (XO XH))))
+    (bytes_eqb (slice_to b (Zpos (XO (XO XH)))) ((Zpos (XO (XO (XI (XO (XI
+      (XI XH))))))) :: ((Zpos (XO (XI (XO (XO (XI (XI XH))))))) :: ((Zpos (XI
+      (XO (XI (XO (XI (XI XH))))))) :: ((Zpos (XI (XO (XI (XO (XO (XI
+      XH))))))) :: [])))))
+
+(** val json_hasFalsePrefix : bytes -> bool **)
+
+let json_hasFalsePrefix b =
+  (&&) (Z.geb (len b) (Zpos (XI (XO XH))))
+    (bytes_eqb (slice_to b (Zpos (XI (XO XH)))) ((Zpos (XO (XI (XI (XO (XO
+      (XI XH))))))) :: ((Zpos (XI (XO (XO (XO (XO (XI XH))))))) :: ((Zpos (XO
+      (XO (XI (XI (XO (XI XH))))))) :: ((Zpos (XI (XI (XO (XO (XI (XI
+      XH))))))) :: ((Zpos (XI (XO (XI (XO (XO (XI XH))))))) :: []))))))
+
+(** val json_decoder_parseFalse :
+    z -> bytes -> ((bytes * bytes) * z) * json_err option **)
+
+let json_decoder_parseFalse _ b =
+  if json_hasFalsePrefix b
+  then ((((slice_to b (Zpos (XI (XO XH)))),
+         (slice_from b (Zpos (XI (XO XH))))), json_False), None)
+  else if Z.ltb (len b) (Zpos (XI (XO XH)))
+       then ((([], (slice_from b (len b))), json_Undefined), (Some
+              JErrUnexpectedEOF))
+       else ((([], b), json_Undefined), (Some JErrSyntax))
+
+(** val json_decoder_parseNull :
+    z -> bytes -> ((bytes * bytes) * z) * json_err option **)
+
+let json_decoder_parseNull _ b =
+  if json_hasNullPrefix b
+  then ((((slice_to b (Zpos (XO (XO XH)))),
+         (slice_from b (Zpos (XO (XO XH))))), json_Null), None)
+  else if Z.ltb (len b) (Zpos (XO (XO XH)))
+       then ((([], (slice_from b (len b))), json_Undefined), (Some
+              JErrUnexpectedEOF))
+       else ((([], b), json_Undefined), (Some JErrSyntax))
+
+(** val json_decoder_parseNumber :
+    nat -> z -> bytes -> (((bytes * bytes) * z) * json_err option) option **)
+
+let json_decoder_parseNumber fuel _ b =
+  let v = [] in
+  let r = [] in
+  let kind = Z0 in
+  let err = None in
+  if Z.eqb (len b) Z0
+  then let err0 = Some JErrUnexpectedEOF in Some (((v, b), kind), err0)
+  else let i = Z0 in
+       let k17_ = fun kind0 i0 ->
+         if Z.eqb i0 (len b)
+         then let r0 = slice_from b i0 in
+              let err0 = Some JErrSyntax in Some (((v, r0), kind0), err0)
+         else if (||) (Z.ltb (at_ b i0) (Zpos (XO (XO (XO (XO (XI XH)))))))
+                   (Z.gtb (at_ b i0) (Zpos (XI (XO (XO (XI (XI XH)))))))
+              then let r0 = slice_from b i0 in
+                   let err0 = Some JErrSyntax in Some (((v, r0), kind0), err0)
+              else let k16_ = fun v0 r0 err0 i1 ->
+                     let k12_ = fun i2 ->
+                       let k7_ = fun r1 kind1 err1 i3 ->
+                         let k1_ = fun _ kind2 err2 i4 ->
+                           let v1 = slice_to b i4 in
+                           let r2 = slice_from b i4 in
+                           Some (((v1, r2), kind2), err2)
+                         in
+                         if (&&) (Z.ltb i3 (len b))
+                              ((||)
+                                (Z.eqb (at_ b i3) (Zpos (XI (XO (XI (XO (XO
+                                  (XI XH))))))))
+                                (Z.eqb (at_ b i3) (Zpos (XI (XO (XI (XO (XO
+                                  (XO XH)))))))))
+                         then let i4 = addi64 i3 (Zpos XH) in
+                              let k6_ = fun i5 ->
+                                if Z.eqb i5 (len b)
+                                then let r2 = slice_from b i5 in
+                                     let err2 = Some JErrSyntax in
+                                     Some (((v0, r2), json_Float), err2)
+                                else let k2_ = fun err2 i6 ->
+                                       k1_ r1 json_Float err2 i6
+                                     in
+                                     let rec loop3_ f4_ err2 i6 =
+                                       match f4_ with
+                                       | O -> None
+                                       | S f5_ ->
+                                         if Z.ltb i6 (len b)
+                                         then let c = at_ b i6 in
+                                              if (||)
+                                                   (Z.gtb (Zpos (XO (XO (XO
+                                                     (XO (XI XH)))))) c)
+                                                   (Z.gtb c (Zpos (XI (XO (XO
+                                                     (XI (XI XH)))))))
+                                              then if Z.eqb i6 i5
+                                                   then let err3 = Some
+                                                          JErrSyntax
+                                                        in
+                                                        Some (((v0, r1),
+                                                        json_Float), err3)
+                                                   else k2_ err2 i6
+                                              else let i7 =
+                                                     addi64 i6 (Zpos XH)
+                                                   in
+                                                   loop3_ f5_ err2 i7
+                                         else k2_ err2 i6
+                                     in loop3_ fuel err1 i5
+                              in
+                              if Z.ltb i4 (len b)
+                              then let c_1 = at_ b i4 in
+                                   if (||)
+                                        (Z.eqb c_1 (Zpos (XI (XI (XO (XI (XO
+                                          XH)))))))
+                                        (Z.eqb c_1 (Zpos (XI (XO (XI (XI (XO
+                                          XH)))))))
+                                   then let i5 = addi64 i4 (Zpos XH) in k6_ i5
+                                   else k6_ i4
+                              else k6_ i4
+                         else k1_ r1 kind1 err1 i3
+                       in
+                       if (&&) (Z.ltb i2 (len b))
+                            (Z.eqb (at_ b i2) (Zpos (XO (XI (XI (XI (XO
+                              XH)))))))
+                       then let i3 = addi64 i2 (Zpos XH) in
+                            let k8_ = fun r1 err1 i4 ->
+                              if Z.eqb i4 i3
+                              then let r2 = slice_from b i4 in
+                                   let err2 = Some JErrSyntax in
+                                   Some (((v0, r2), json_Float), err2)
+                              else k7_ r1 json_Float err1 i4
+                            in
+                            let rec loop9_ f10_ r1 err1 i4 =
+                              match f10_ with
+                              | O -> None
+                              | S f11_ ->
+                                if Z.ltb i4 (len b)
+                                then let c_2 = at_ b i4 in
+                                     if (||)
+                                          (Z.gtb (Zpos (XO (XO (XO (XO (XI
+                                            XH)))))) c_2)
+                                          (Z.gtb c_2 (Zpos (XI (XO (XO (XI
+                                            (XI XH)))))))
+                                     then if Z.eqb i4 i3
+                                          then let r2 = slice_from b i4 in
+                                               let err2 = Some JErrSyntax in
+                                               Some (((v0, r2), json_Float),
+                                               err2)
+                                          else k8_ r1 err1 i4
+                                     else let i5 = addi64 i4 (Zpos XH) in
+                                          loop9_ f11_ r1 err1 i5
+                                else k8_ r1 err1 i4
+                            in loop9_ fuel r0 err0 i3
+                       else k7_ r0 kind0 err0 i2
+                     in
+                     let rec loop13_ f14_ i2 =
+                       match f14_ with
+                       | O -> None
+                       | S f15_ ->
+                         if (&&)
+                              ((&&) (Z.ltb i2 (len b))
+                                (Z.leb (Zpos (XO (XO (XO (XO (XI XH))))))
+                                  (at_ b i2)))
+                              (Z.leb (at_ b i2) (Zpos (XI (XO (XO (XI (XI
+                                XH)))))))
+                         then let i3 = addi64 i2 (Zpos XH) in loop13_ f15_ i3
+                         else k12_ i2
+                     in loop13_ fuel i1
+                   in
+                   if Z.eqb (at_ b i0) (Zpos (XO (XO (XO (XO (XI XH))))))
+                   then let i1 = addi64 i0 (Zpos XH) in
+                        if (||) (Z.eqb i1 (len b))
+                             ((&&)
+                               ((&&)
+                                 (negb
+                                   (Z.eqb (at_ b i1) (Zpos (XO (XI (XI (XI
+                                     (XO XH))))))))
+                                 (negb
+                                   (Z.eqb (at_ b i1) (Zpos (XI (XO (XI (XO
+                                     (XO (XI XH))))))))))
+                               (negb
+                                 (Z.eqb (at_ b i1) (Zpos (XI (XO (XI (XO (XO
+                                   (XO XH))))))))))
+                        then let v0 = slice_to b i1 in
+                             let r0 = slice_from b i1 in
+                             Some (((v0, r0), kind0), err)
+                        else if (&&)
+                                  (Z.leb (Zpos (XO (XO (XO (XO (XI XH))))))
+                                    (at_ b i1))
+                                  (Z.leb (at_ b i1) (Zpos (XI (XO (XO (XI (XI
+                                    XH)))))))
+                             then let r0 = slice_from b i1 in
+                                  let err0 = Some JErrSyntax in
+                                  Some (((v, r0), kind0), err0)
+                             else k16_ v r err i1
+                   else k16_ v r err i0
+       in
+       if Z.eqb (at_ b i) (Zpos (XI (XO (XI (XI (XO XH))))))
+       then let i0 = addi64 i (Zpos XH) in k17_ json_Int i0
+       else k17_ json_Uint i
+
+(** val json_decoder_parseUintHex :
+    z -> bytes -> (z * bytes) * json_err option **)
+
+let json_decoder_parseUintHex _ b =
+  let value = Z0 in
+  let count = Z0 in
+  if Z.eqb (len b) Z0
+  then ((Z0, b), (Some JErrSyntax))
+  else let k1_ = fun value0 count0 -> ((value0, (slice_from b count0)), None)
+       in
+       let rec loop2_ l3_ i4_ value0 count0 =
+         match l3_ with
+         | [] -> k1_ value0 count0
+         | h5_ :: t6_ ->
+           let k7_ = fun x ->
+             if Z.gtb value0 (Zpos (XI (XI (XI (XI (XI (XI (XI (XI (XI (XI
+                  (XI (XI (XI (XI (XI (XI (XI (XI (XI (XI (XI (XI (XI (XI (XI
+                  (XI (XI (XI (XI (XI (XI (XI (XI (XI (XI (XI (XI (XI (XI (XI
+                  (XI (XI (XI (XI (XI (XI (XI (XI (XI (XI (XI (XI (XI (XI (XI
+                  (XI (XI (XI (XI
+                  XH))))))))))))))))))))))))))))))))))))))))))))))))))))))))))))
+             then ((Z0, b), (Some JErrSyntax))
+             else let value1 = mul64 value0 (Zpos (XO (XO (XO (XO XH))))) in
+                  if Z.gtb value1
+                       (sub64 (Zpos (XI (XI (XI (XI (XI (XI (XI (XI (XI (XI
+                         (XI (XI (XI (XI (XI (XI (XI (XI (XI (XI (XI (XI (XI
+                         (XI (XI (XI (XI (XI (XI (XI (XI (XI (XI (XI (XI (XI
+                         (XI (XI (XI (XI (XI (XI (XI (XI (XI (XI (XI (XI (XI
+                         (XI (XI (XI (XI (XI (XI (XI (XI (XI (XI (XI (XI (XI
+                         (XI
+                         XH))))))))))))))))))))))))))))))))))))))))))))))))))))))))))))))))
+                         x)
+                  then ((Z0, b), (Some JErrSyntax))
+                  else let value2 = add64 value1 x in
+                       let count1 = addi64 count0 (Zpos XH) in
+                       loop2_ t6_ (Z.add i4_ (Zpos XH)) value2 count1
+           in
+           if (&&) (Z.geb h5_ (Zpos (XO (XO (XO (XO (XI XH)))))))
+                (Z.leb h5_ (Zpos (XI (XO (XO (XI (XI XH)))))))
+           then let x = sub8 h5_ (Zpos (XO (XO (XO (XO (XI XH)))))) in k7_ x
+           else if (&&) (Z.geb h5_ (Zpos (XI (XO (XO (XO (XO (XO XH))))))))
+                     (Z.leb h5_ (Zpos (XO (XI (XI (XO (XO (XO XH))))))))
+                then let x =
+                       add64
+                         (sub8 h5_ (Zpos (XI (XO (XO (XO (XO (XO XH))))))))
+                         (Zpos (XO (XI (XO XH))))
+                     in
+                     k7_ x
+                else if (&&)
+                          (Z.geb h5_ (Zpos (XI (XO (XO (XO (XO (XI XH))))))))
+                          (Z.leb h5_ (Zpos (XO (XI (XI (XO (XO (XI XH))))))))
+                     then let x =
+                            add64
+                              (sub8 h5_ (Zpos (XI (XO (XO (XO (XO (XI
+                                XH)))))))) (Zpos (XO (XI (XO XH))))
+                          in
+                          k7_ x
+                     else if Z.eqb i4_ Z0
+                          then ((Z0, b), (Some JErrSyntax))
+                          else k1_ value0 count0
+       in loop2_ b Z0 value count
+
+(** val json_decoder_parseUnicode :
+    z -> bytes -> (z * z) * json_err option **)
+
+let json_decoder_parseUnicode d b =
+  if Z.ltb (len b) (Zpos (XO (XO XH)))
+  then ((Z0, (len b)), (Some JErrSyntax))
+  else let (p, err) =
+         json_decoder_parseUintHex d (slice_to b (Zpos (XO (XO XH))))
+       in
+       let (u, r) = p in
+       if negb (isnil err)
+       then ((Z0, (Zpos (XO (XO XH)))), (Some JErrSyntax))
+       else if negb (Z.eqb (len r) Z0)
+            then ((Z0, (Zpos (XO (XO XH)))), (Some JErrSyntax))
+            else (((s32 u), (Zpos (XO (XO XH)))), None)
+
+(** val json_decoder_parseString :
+    nat -> z -> bytes -> (((bytes * bytes) * z) * json_err option) option **)
+
+let json_decoder_parseString fuel d b =
+  let k8_ = fun n_1 ->
+    if (&&)
+         ((||) (json_ParseFlags_has (Obj.magic id d) json_noBackslash)
+           (Z.ltb
+             (index_byte (slice b (Zpos XH) n_1) (Zpos (XO (XO (XI (XI (XI
+               (XO XH)))))))) Z0))
+         ((||) (json_ParseFlags_has (Obj.magic id d) json_validAsciiPrint)
+           (ascii_ValidPrint (slice b (Zpos XH) n_1)))
+    then Some ((((slice_to b n_1), (slice_from b n_1)), json_Unescaped), None)
+    else let i = Zpos XH in
+         let k1_ = fun _ -> Some ((([], (slice_from b (len b))),
+           json_Undefined), (Some JErrSyntax))
+         in
+         let rec loop2_ f3_ i0 =
+           match f3_ with
+           | O -> None
+           | S f4_ ->
+             if Z.ltb i0 (len b)
+             then let k5_ = fun i1 ->
+                    let i2 = addi64 i1 (Zpos XH) in loop2_ f4_ i2
+                  in
+                  let tag6_ = at_ b i0 in
+                  if Z.eqb tag6_ (Zpos (XO (XO (XI (XI (XI (XO XH)))))))
+                  then let i1 = addi64 i0 (Zpos XH) in
+                       if Z.ltb i1 (len b)
+                       then let tag7_ = at_ b i1 in
+                            if (||)
+                                 ((||)
+                                   ((||)
+                                     ((||)
+                                       ((||)
+                                         ((||)
+                                           ((||)
+                                             (Z.eqb tag7_ (Zpos (XO (XI (XO
+                                               (XO (XO XH)))))))
+                                             (Z.eqb tag7_ (Zpos (XO (XO (XI
+                                               (XI (XI (XO XH)))))))))
+                                           (Z.eqb tag7_ (Zpos (XI (XI (XI (XI
+                                             (XO XH))))))))
+                                         (Z.eqb tag7_ (Zpos (XO (XI (XI (XI
+                                           (XO (XI XH)))))))))
+                                       (Z.eqb tag7_ (Zpos (XO (XI (XO (XO (XI
+                                         (XI XH)))))))))
+                                     (Z.eqb tag7_ (Zpos (XO (XO (XI (XO (XI
+                                       (XI XH)))))))))
+                                   (Z.eqb tag7_ (Zpos (XO (XI (XI (XO (XO (XI
+                                     XH)))))))))
+                                 (Z.eqb tag7_ (Zpos (XO (XI (XO (XO (XO (XI
+                                   XH))))))))
+                            then k5_ i1
+                            else if Z.eqb tag7_ (Zpos (XI (XO (XI (XO (XI (XI
+                                      XH)))))))
+                                 then let (p, err) =
+                                        json_decoder_parseUnicode d
+                                          (slice_from b (addi64 i1 (Zpos XH)))
+                                      in
+                                      let (_, n0) = p in
+                                      if negb (isnil err)
+                                      then Some ((([],
+                                             (slice_from b
+                                               (addi64 (addi64 i1 (Zpos XH))
+                                                 n0))), json_Undefined), err)
+                                      else let i2 = addi64 i1 n0 in k5_ i2
+                                 else Some ((([], b), json_Undefined), (Some
+                                        JErrSyntax))
+                       else k5_ i1
+                  else if Z.eqb tag6_ (Zpos (XO (XI (XO (XO (XO XH))))))
+                       then Some ((((slice_to b (addi64 i0 (Zpos XH))),
+                              (slice_from b (addi64 i0 (Zpos XH)))),
+                              json_String), None)
+                       else if Z.ltb (at_ b i0) (Zpos (XO (XO (XO (XO (XO
+                                 XH))))))
+                            then Some ((([], b), json_Undefined), (Some
+                                   JErrSyntax))
+                            else k5_ i0
+             else k1_ i0
+         in loop2_ fuel i
+  in
+  if Z.ltb (len b) (Zpos (XO XH))
+  then Some ((([], (slice_from b (len b))), json_Undefined), (Some
+         JErrUnexpectedEOF))
+  else if negb (Z.eqb (at_ b Z0) (Zpos (XO (XI (XO (XO (XO XH)))))))
+       then Some ((([], b), json_Undefined), (Some JErrSyntax))
+       else let n_1 = Z0 in
+            let k9_ = fun _ ->
+              let n_2 =
+                addi64
+                  (index_byte (slice_from b (Zpos XH)) (Zpos (XO (XI (XO (XO
+                    (XO XH))))))) (Zpos (XO XH))
+              in
+              if Z.leb n_2 (Zpos XH)
+              then Some ((([], (slice_from b (len b))), json_Undefined),
+                     (Some JErrSyntax))
+              else k8_ n_2
+            in
+            if Z.geb (len b) (Zpos (XI (XO (XO XH))))
+            then let u =
+                   xor64 (le64 (slice_from b (Zpos XH))) (Zpos (XO (XI (XO
+                     (XO (XO (XI (XO (XO (XO (XI (XO (XO (XO (XI (XO (XO (XO
+                     (XI (XO (XO (XO (XI (XO (XO (XO (XI (XO (XO (XO (XI (XO
+                     (XO (XO (XI (XO (XO (XO (XI (XO (XO (XO (XI (XO (XO (XO
+                     (XI (XO (XO (XO (XI (XO (XO (XO (XI (XO (XO (XO (XI (XO
+                     (XO (XO
+                     XH))))))))))))))))))))))))))))))))))))))))))))))))))))))))))))))
+                 in
+                 let mask_1 =
+                   and64
+                     (and64
+                       (sub64 u (Zpos (XI (XO (XO (XO (XO (XO (XO (XO (XI (XO
+                         (XO (XO (XO (XO (XO (XO (XI (XO (XO (XO (XO (XO (XO
+                         (XO (XI (XO (XO (XO (XO (XO (XO (XO (XI (XO (XO (XO
+                         (XO (XO (XO (XO (XI (XO (XO (XO (XO (XO (XO (XO (XI
+                         (XO (XO (XO (XO (XO (XO (XO
+                         XH))))))))))))))))))))))))))))))))))))))))))))))))))))))))))
+                       (not64 u)) (Zpos (XO (XO (XO (XO (XO (XO (XO (XI (XO
+                     (XO (XO (XO (XO (XO (XO (XI (XO (XO (XO (XO (XO (XO (XO
+                     (XI (XO (XO (XO (XO (XO (XO (XO (XI (XO (XO (XO (XO (XO
+                     (XO (XO (XI (XO (XO (XO (XO (XO (XO (XO (XI (XO (XO (XO
+                     (XO (XO (XO (XO (XI (XO (XO (XO (XO (XO (XO (XO
+                     XH))))))))))))))))))))))))))))))))))))))))))))))))))))))))))))))))
+                 in
+                 if negb (Z.eqb mask_1 Z0)
+                 then let n_2 =
+                        addi64
+                          (divi64 (ctz64 mask_1) (Zpos (XO (XO (XO XH)))))
+                          (Zpos (XO XH))
+                      in
+                      k8_ n_2
+                 else if Z.geb (len b) (Zpos (XI (XO (XO (XO XH)))))
+                      then let u0 =
+                             xor64
+                               (le64 (slice_from b (Zpos (XI (XO (XO XH))))))
+                               (Zpos (XO (XI (XO (XO (XO (XI (XO (XO (XO (XI
+                               (XO (XO (XO (XI (XO (XO (XO (XI (XO (XO (XO
+                               (XI (XO (XO (XO (XI (XO (XO (XO (XI (XO (XO
+                               (XO (XI (XO (XO (XO (XI (XO (XO (XO (XI (XO
+                               (XO (XO (XI (XO (XO (XO (XI (XO (XO (XO (XI
+                               (XO (XO (XO (XI (XO (XO (XO
+                               XH))))))))))))))))))))))))))))))))))))))))))))))))))))))))))))))
+                           in
+                           let mask0 =
+                             and64
+                               (and64
+                                 (sub64 u0 (Zpos (XI (XO (XO (XO (XO (XO (XO
+                                   (XO (XI (XO (XO (XO (XO (XO (XO (XO (XI
+                                   (XO (XO (XO (XO (XO (XO (XO (XI (XO (XO
+                                   (XO (XO (XO (XO (XO (XI (XO (XO (XO (XO
+                                   (XO (XO (XO (XI (XO (XO (XO (XO (XO (XO
+                                   (XO (XI (XO (XO (XO (XO (XO (XO (XO
+                                   XH))))))))))))))))))))))))))))))))))))))))))))))))))))))))))
+                                 (not64 u0)) (Zpos (XO (XO (XO (XO (XO (XO
+                               (XO (XI (XO (XO (XO (XO (XO (XO (XO (XI (XO
+                               (XO (XO (XO (XO (XO (XO (XI (XO (XO (XO (XO
+                               (XO (XO (XO (XI (XO (XO (XO (XO (XO (XO (XO
+                               (XI (XO (XO (XO (XO (XO (XO (XO (XI (XO (XO
+                               (XO (XO (XO (XO (XO (XI (XO (XO (XO (XO (XO
+                               (XO (XO
+                               XH))))))))))))))))))))))))))))))))))))))))))))))))))))))))))))))))
+                           in
+                           if negb (Z.eqb mask0 Z0)
+                           then let n_2 =
+                                  addi64
+                                    (divi64 (ctz64 mask0) (Zpos (XO (XO (XO
+                                      XH))))) (Zpos (XO (XI (XO XH))))
+                                in
+                                k8_ n_2
+                           else k9_ n_1
+                      else k9_ n_1
+            else k9_ n_1
+
+(** val json_decoder_parseTrue :
+    z -> bytes -> ((bytes * bytes) * z) * json_err option **)
+
+let json_decoder_parseTrue _ b =
+  if json_hasTruePrefix b
+  then ((((slice_to b (Zpos (XO (XO XH)))),
+         (slice_from b (Zpos (XO (XO XH))))), json_True), None)
+  else if Z.ltb (len b) (Zpos (XO (XO XH)))
+       then ((([], (slice_from b (len b))), json_Undefined), (Some
+              JErrUnexpectedEOF))
+       else ((([], b), json_Undefined), (Some JErrSyntax))
+
+(** val json_decoder_parseArray :
+    nat -> z -> bytes -> (((bytes * bytes) * z) * json_err option) option **)
+
+let rec json_decoder_parseArray fuel d b =
+  match fuel with
+  | O -> None
+  | S fuel' ->
+    if Z.ltb (len b) (Zpos (XO XH))
+    then Some ((([], (slice_from b (len b))), json_Undefined), (Some
+           JErrUnexpectedEOF))
+    else if negb (Z.eqb (at_ b Z0) (Zpos (XI (XI (XO (XI (XI (XO XH))))))))
+         then Some ((([], b), json_Undefined), (Some JErrSyntax))
+         else let err = None in
+              let n0 = len b in
+              let i = Z0 in
+              let b0 = slice_from b (Zpos XH) in
+              let rec loop2_ f3_ b1 _ i0 =
+                match f3_ with
+                | O -> None
+                | S f4_ ->
+                  let b2 = json_skipSpaces b1 in
+                  if Z.eqb (len b2) Z0
+                  then Some ((([], b2), json_Undefined), (Some JErrSyntax))
+                  else if Z.eqb (at_ b2 Z0) (Zpos (XI (XO (XI (XI (XI (XO
+                            XH)))))))
+                       then let j = addi64 (subi64 n0 (len b2)) (Zpos XH) in
+                            Some ((((slice_to b j), (slice_from b j)),
+                            json_Array), None)
+                       else let k5_ = fun b3 ->
+                              obind (json_decoder_parseValue fuel' d b3)
+                                (fun pat ->
+                                let (p, err0) = pat in
+                                let (p0, _) = p in
+                                let (_, b4) = p0 in
+                                if negb (isnil err0)
+                                then Some ((([], b4), json_Undefined), err0)
+                                else let i1 = addi64 i0 (Zpos XH) in
+                                     loop2_ f4_ b4 err0 i1)
+                            in
+                            if negb (Z.eqb i0 Z0)
+                            then if Z.eqb (len b2) Z0
+                                 then Some ((([], b2), json_Undefined), (Some
+                                        JErrSyntax))
+                                 else if negb
+                                           (Z.eqb (at_ b2 Z0) (Zpos (XO (XO
+                                             (XI (XI (XO XH)))))))
+                                      then Some ((([], b2), json_Undefined),
+                                             (Some JErrSyntax))
+                                      else let b3 =
+                                             json_skipSpaces
+                                               (slice_from b2 (Zpos XH))
+                                           in
+                                           if Z.eqb (len b3) Z0
+                                           then Some ((([], b3),
+                                                  json_Undefined), (Some
+                                                  JErrUnexpectedEOF))
+                                           else if Z.eqb (at_ b3 Z0) (Zpos
+                                                     (XI (XO (XI (XI (XI (XO
+                                                     XH)))))))
+                                                then Some ((([], b3),
+                                                       json_Undefined), (Some
+                                                       JErrSyntax))
+                                                else k5_ b3
+                            else k5_ b2
+              in loop2_ fuel' b0 err i
+
+(** val json_decoder_parseObject :
+    nat -> z -> bytes -> (((bytes * bytes) * z) * json_err option) option **)
+
+and json_decoder_parseObject fuel d b =
+  match fuel with
+  | O -> None
+  | S fuel' ->
+    if Z.ltb (len b) (Zpos (XO XH))
+    then Some ((([], (slice_from b (len b))), json_Undefined), (Some
+           JErrUnexpectedEOF))
+    else if negb (Z.eqb (at_ b Z0) (Zpos (XI (XI (XO (XI (XI (XI XH))))))))
+         then Some ((([], b), json_Undefined), (Some JErrSyntax))
+         else let err = None in
+              let n0 = len b in
+              let i = Z0 in
+              let b0 = slice_from b (Zpos XH) in
+              let rec loop2_ f3_ b1 _ i0 =
+                match f3_ with
+                | O -> None
+                | S f4_ ->
+                  let b2 = json_skipSpaces b1 in
+                  if Z.eqb (len b2) Z0
+                  then Some ((([], b2), json_Undefined), (Some JErrSyntax))
+                  else if Z.eqb (at_ b2 Z0) (Zpos (XI (XO (XI (XI (XI (XI
+                            XH)))))))
+                       then let j = addi64 (subi64 n0 (len b2)) (Zpos XH) in
+                            Some ((((slice_to b j), (slice_from b j)),
+                            json_Object), None)
+                       else let k5_ = fun b3 ->
+                              obind (json_decoder_parseString fuel' d b3)
+                                (fun pat ->
+                                let (p, err0) = pat in
+                                let (p0, _) = p in
+                                let (_, b4) = p0 in
+                                if negb (isnil err0)
+                                then Some ((([], b4), json_Undefined), err0)
+                                else let b5 = json_skipSpaces b4 in
+                                     if Z.eqb (len b5) Z0
+                                     then Some ((([], b5), json_Undefined),
+                                            (Some JErrSyntax))
+                                     else if negb
+                                               (Z.eqb (at_ b5 Z0) (Zpos (XO
+                                                 (XI (XO (XI (XI XH)))))))
+                                          then Some ((([], b5),
+                                                 json_Undefined), (Some
+                                                 JErrSyntax))
+                                          else let b6 =
+                                                 json_skipSpaces
+                                                   (slice_from b5 (Zpos XH))
+                                               in
+                                               obind
+                                                 (json_decoder_parseValue
+                                                   fuel' d b6) (fun pat0 ->
+                                                 let (p1, err1) = pat0 in
+                                                 let (p2, _) = p1 in
+                                                 let (_, b7) = p2 in
+                                                 if negb (isnil err1)
+                                                 then Some ((([], b7),
+                                                        json_Undefined), err1)
+                                                 else let i1 =
+                                                        addi64 i0 (Zpos XH)
+                                                      in
+                                                      loop2_ f4_ b7 err1 i1))
+                            in
+                            if negb (Z.eqb i0 Z0)
+                            then if Z.eqb (len b2) Z0
+                                 then Some ((([], b2), json_Undefined), (Some
+                                        JErrSyntax))
+                                 else if negb
+                                           (Z.eqb (at_ b2 Z0) (Zpos (XO (XO
+                                             (XI (XI (XO XH)))))))
+                                      then Some ((([], b2), json_Undefined),
+                                             (Some JErrSyntax))
+                                      else let b3 =
+                                             json_skipSpaces
+                                               (slice_from b2 (Zpos XH))
+                                           in
+                                           if Z.eqb (len b3) Z0
+                                           then Some ((([], b3),
+                                                  json_Undefined), (Some
+                                                  JErrUnexpectedEOF))
+                                           else if Z.eqb (at_ b3 Z0) (Zpos
+                                                     (XI (XO (XI (XI (XI (XI
+                                                     XH)))))))
+                                                then Some ((([], b3),
+                                                       json_Undefined), (Some
+                                                       JErrSyntax))
+                                                else k5_ b3
+                            else k5_ b2
+              in loop2_ fuel' b0 err i
+
+(** val json_decoder_parseValue :
+    nat -> z -> bytes -> (((bytes * bytes) * z) * json_err option) option **)
+
+and json_decoder_parseValue fuel d b =
+  match fuel with
+  | O -> None
+  | S fuel' ->
+    if Z.eqb (len b) Z0
+    then Some ((([], b), json_Undefined), (Some JErrSyntax))
+    else let v = [] in
+         let k = Z0 in
+         let k1_ = fun b0 v0 k0 err -> Some (((v0, b0), k0), err) in
+         let tag2_ = at_ b Z0 in
+         if Z.eqb tag2_ (Zpos (XI (XI (XO (XI (XI (XI XH)))))))
+         then obind (json_decoder_parseObject fuel' d b) (fun pat ->
+                let (p, err) = pat in
+                let (p0, k0) = p in let (v0, b0) = p0 in k1_ b0 v0 k0 err)
+         else if Z.eqb tag2_ (Zpos (XI (XI (XO (XI (XI (XO XH)))))))
+              then obind (json_decoder_parseArray fuel' d b) (fun pat ->
+                     let (p, err) = pat in
+                     let (p0, k0) = p in let (v0, b0) = p0 in k1_ b0 v0 k0 err)
+              else if Z.eqb tag2_ (Zpos (XO (XI (XO (XO (XO XH))))))
+                   then obind (json_decoder_parseString fuel' d b)
+                          (fun pat ->
+                          let (p, err) = pat in
+                          let (p0, k0) = p in
+                          let (v0, b0) = p0 in k1_ b0 v0 k0 err)
+                   else if Z.eqb tag2_ (Zpos (XO (XI (XI (XI (XO (XI XH)))))))
+                        then let (p, err) = json_decoder_parseNull d b in
+                             let (p0, k0) = p in
+                             let (v0, b0) = p0 in k1_ b0 v0 k0 err
+                        else if Z.eqb tag2_ (Zpos (XO (XO (XI (XO (XI (XI
+                                  XH)))))))
+                             then let (p, err) = json_decoder_parseTrue d b in
+                                  let (p0, k0) = p in
+                                  let (v0, b0) = p0 in k1_ b0 v0 k0 err
+                             else if Z.eqb tag2_ (Zpos (XO (XI (XI (XO (XO
+                                       (XI XH)))))))
+                                  then let (p, err) =
+                                         json_decoder_parseFalse d b
+                                       in
+                                       let (p0, k0) = p in
+                                       let (v0, b0) = p0 in k1_ b0 v0 k0 err
+                                  else if (||)
+                                            ((||)
+                                              ((||)
+                                                ((||)
+                                                  ((||)
+                                                    ((||)
+                                                      ((||)
+                                                        ((||)
+                                                          ((||)
+                                                            ((||)
+                                                              (Z.eqb tag2_
+                                                                (Zpos (XI (XO
+                                                                (XI (XI (XO
+                                                                XH)))))))
+                                                              (Z.eqb tag2_
+                                                                (Zpos (XO (XO
+                                                                (XO (XO (XI
+                                                                XH))))))))
+                                                            (Z.eqb tag2_
+                                                              (Zpos (XI (XO
+                                                              (XO (XO (XI
+                                                              XH))))))))
+                                                          (Z.eqb tag2_ (Zpos
+                                                            (XO (XI (XO (XO
+                                                            (XI XH))))))))
+                                                        (Z.eqb tag2_ (Zpos
+                                                          (XI (XI (XO (XO (XI
+                                                          XH))))))))
+                                                      (Z.eqb tag2_ (Zpos (XO
+                                                        (XO (XI (XO (XI
+                                                        XH))))))))
+                                                    (Z.eqb tag2_ (Zpos (XI
+                                                      (XO (XI (XO (XI
+                                                      XH))))))))
+                                                  (Z.eqb tag2_ (Zpos (XO (XI
+                                                    (XI (XO (XI XH))))))))
+                                                (Z.eqb tag2_ (Zpos (XI (XI
+                                                  (XI (XO (XI XH))))))))
+                                              (Z.eqb tag2_ (Zpos (XO (XO (XO
+                                                (XI (XI XH))))))))
+                                            (Z.eqb tag2_ (Zpos (XI (XO (XO
+                                              (XI (XI XH)))))))
+                                       then obind
+                                              (json_decoder_parseNumber fuel'
+                                                d b) (fun pat ->
+                                              let (p, err) = pat in
+                                              let (p0, k0) = p in
+                                              let (v0, b0) = p0 in
+                                              k1_ b0 v0 k0 err)
+                                       else let err = Some JErrSyntax in
+                                            k1_ b v k err
+
+(** val json_expand : z -> z **)
+
+let json_expand b =
+  mul64 json_lsb b
+
+(** val json_below : z -> z -> z **)
+
+let json_below n0 b =
+  sub64 n0 (json_expand b)
+
+(** val json_contains : z -> z -> z **)
+
+let json_contains n0 b =
+  sub64 (xor64 n0 (json_expand b)) json_lsb
+
+(** val json_escapeIndex : nat -> bytes -> bool -> z option **)
+
+let json_escapeIndex fuel s escapeHTML =
+  let chunks = chunks64 s in
+  let k5_ = fun _ ->
+    let i = muli64 (len chunks) (Zpos (XO (XO (XO XH)))) in
+    let k1_ = fun _ -> Some (Zneg XH) in
+    let rec loop2_ f3_ i0 =
+      match f3_ with
+      | O -> None
+      | S f4_ ->
+        if Z.ltb i0 (len s)
+        then let c = at_ s i0 in
+             if (||)
+                  ((||)
+                    ((||)
+                      ((||) (Z.ltb c (Zpos (XO (XO (XO (XO (XO XH)))))))
+                        (Z.gtb c (Zpos (XI (XI (XI (XI (XI (XI XH)))))))))
+                      (Z.eqb c (Zpos (XO (XI (XO (XO (XO XH))))))))
+                    (Z.eqb c (Zpos (XO (XO (XI (XI (XI (XO XH)))))))))
+                  ((&&) escapeHTML
+                    ((||)
+                      ((||) (Z.eqb c (Zpos (XO (XO (XI (XI (XI XH)))))))
+                        (Z.eqb c (Zpos (XO (XI (XI (XI (XI XH))))))))
+                      (Z.eqb c (Zpos (XO (XI (XI (XO (XO XH)))))))))
+             then Some i0
+             else let i1 = addi64 i0 (Zpos XH) in loop2_ f4_ i1
+        else k1_ i0
+    in loop2_ fuel i
+  in
+  let rec loop6_ l7_ i8_ =
+    match l7_ with
+    | [] -> k5_ ()
+    | h9_ :: t10_ ->
+      let mask0 =
+        or64
+          (or64
+            (or64 h9_ (json_below h9_ (Zpos (XO (XO (XO (XO (XO XH))))))))
+            (json_contains h9_ (Zpos (XO (XI (XO (XO (XO XH))))))))
+          (json_contains h9_ (Zpos (XO (XO (XI (XI (XI (XO XH))))))))
+      in
+      let k11_ = fun mask1 ->
+        if negb (Z.eqb (and64 mask1 json_msb) Z0)
+        then Some
+               (divi64 (ctz64 (and64 mask1 json_msb)) (Zpos (XO (XO (XO
+                 XH)))))
+        else loop6_ t10_ (Z.add i8_ (Zpos XH))
+      in
+      if escapeHTML
+      then let mask1 =
+             or64 mask0
+               (or64
+                 (or64 (json_contains h9_ (Zpos (XO (XO (XI (XI (XI XH)))))))
+                   (json_contains h9_ (Zpos (XO (XI (XI (XI (XI XH))))))))
+                 (json_contains h9_ (Zpos (XO (XI (XI (XO (XO XH))))))))
+           in
+           k11_ mask1
+      else k11_ mask0
+  in loop6_ chunks Z0
+
+(** val json_Valid : nat -> bytes -> bool option **)
+
+let json_Valid fuel data =
+  let data0 = json_skipSpaces data in
+  obind (json_internalParseFlags fuel data0) (fun d ->
+    obind (json_decoder_parseValue fuel d data0) (fun pat ->
+      let (p, err) = pat in
+      let (p0, _) = p in
+      let (_, data1) = p0 in
+      if negb (isnil err)
+      then Some false
+      else Some (Z.eqb (len (json_skipSpaces data1)) Z0)))
+
+(** val is_ws : z -> bool **)
+
+let is_ws c =
+  (||)
+    ((||)
+      ((||) (Z.eqb c (Zpos (XO (XO (XO (XO (XO XH)))))))
+        (Z.eqb c (Zpos (XI (XO (XO XH))))))
+      (Z.eqb c (Zpos (XO (XI (XO XH)))))) (Z.eqb c (Zpos (XI (XO (XI XH)))))
+
+(** val skip_ws : bytes -> bytes **)
+
+let rec skip_ws b = match b with
+| [] -> []
+| c :: r -> if is_ws c then skip_ws r else b
+
+(** val is_digit : z -> bool **)
+
+let is_digit c =
+  (&&) (Z.leb (Zpos (XO (XO (XO (XO (XI XH)))))) c)
+    (Z.leb c (Zpos (XI (XO (XO (XI (XI XH)))))))
+
+(** val is_hex : z -> bool **)
+
+let is_hex c =
+  (||)
+    ((||) (is_digit c)
+      ((&&) (Z.leb (Zpos (XI (XO (XO (XO (XO (XO XH))))))) c)
+        (Z.leb c (Zpos (XO (XI (XI (XO (XO (XO XH))))))))))
+    ((&&) (Z.leb (Zpos (XI (XO (XO (XO (XO (XI XH))))))) c)
+      (Z.leb c (Zpos (XO (XI (XI (XO (XO (XI XH)))))))))
+
+(** val is_escape_letter : z -> bool **)
+
+let is_escape_letter c =
+  (||)
+    ((||)
+      ((||)
+        ((||)
+          ((||)
+            ((||)
+              ((||) (Z.eqb c (Zpos (XO (XI (XO (XO (XO XH)))))))
+                (Z.eqb c (Zpos (XO (XO (XI (XI (XI (XO XH)))))))))
+              (Z.eqb c (Zpos (XI (XI (XI (XI (XO XH))))))))
+            (Z.eqb c (Zpos (XO (XI (XO (XO (XO (XI XH)))))))))
+          (Z.eqb c (Zpos (XO (XI (XI (XO (XO (XI XH)))))))))
+        (Z.eqb c (Zpos (XO (XI (XI (XI (XO (XI XH)))))))))
+      (Z.eqb c (Zpos (XO (XI (XO (XO (XI (XI XH)))))))))
+    (Z.eqb c (Zpos (XO (XO (XI (XO (XI (XI XH))))))))
+
+(** val g_string : bytes -> bytes option **)
+
+let rec g_string = function
+| [] -> None
+| c :: r ->
+  (match c with
+   | Zpos p ->
+     (match p with
+      | XO p0 ->
+        (match p0 with
+         | XI p1 ->
+           (match p1 with
+            | XO p2 ->
+              (match p2 with
+               | XO p3 ->
+                 (match p3 with
+                  | XO p4 ->
+                    (match p4 with
+                     | XH -> Some r
+                     | _ ->
+                       if Z.ltb c (Zpos (XO (XO (XO (XO (XO XH))))))
+                       then None
+                       else g_string r)
+                  | _ ->
+                    if Z.ltb c (Zpos (XO (XO (XO (XO (XO XH))))))
+                    then None
+                    else g_string r)
+               | _ ->
+                 if Z.ltb c (Zpos (XO (XO (XO (XO (XO XH))))))
+                 then None
+                 else g_string r)
+            | _ ->
+              if Z.ltb c (Zpos (XO (XO (XO (XO (XO XH))))))
+              then None
+              else g_string r)
+         | XO p1 ->
+           (match p1 with
+            | XI p2 ->
+              (match p2 with
+               | XI p3 ->
+                 (match p3 with
+                  | XI p4 ->
+                    (match p4 with
+                     | XO p5 ->
+                       (match p5 with
+                        | XH ->
+                          (match r with
+                           | [] -> None
+                           | e :: r0 ->
+                             if is_escape_letter e
+                             then g_string r0
+                             else if Z.eqb e (Zpos (XI (XO (XI (XO (XI (XI
+                                       XH)))))))
+                                  then (match r0 with
+                                        | [] -> None
+                                        | h1 :: l ->
+                                          (match l with
+                                           | [] -> None
+                                           | h2 :: l0 ->
+                                             (match l0 with
+                                              | [] -> None
+                                              | h3 :: l1 ->
+                                                (match l1 with
+                                                 | [] -> None
+                                                 | h4 :: r' ->
+                                                   if (&&)
+                                                        ((&&)
+                                                          ((&&) (is_hex h1)
+                                                            (is_hex h2))
+                                                          (is_hex h3))
+                                                        (is_hex h4)
+                                                   then g_string r'
+                                                   else None))))
+                                  else None)
+                        | _ ->
+                          if Z.ltb c (Zpos (XO (XO (XO (XO (XO XH))))))
+                          then None
+                          else g_string r)
+                     | _ ->
+                       if Z.ltb c (Zpos (XO (XO (XO (XO (XO XH))))))
+                       then None
+                       else g_string r)
+                  | _ ->
+                    if Z.ltb c (Zpos (XO (XO (XO (XO (XO XH))))))
+                    then None
+                    else g_string r)
+               | _ ->
+                 if Z.ltb c (Zpos (XO (XO (XO (XO (XO XH))))))
+                 then None
+                 else g_string r)
+            | _ ->
+              if Z.ltb c (Zpos (XO (XO (XO (XO (XO XH))))))
+              then None
+              else g_string r)
+         | XH ->
+           if Z.ltb c (Zpos (XO (XO (XO (XO (XO XH))))))
+           then None
+           else g_string r)
+      | _ ->
+        if Z.ltb c (Zpos (XO (XO (XO (XO (XO XH))))))
+        then None
+        else g_string r)
+   | _ ->
+     if Z.ltb c (Zpos (XO (XO (XO (XO (XO XH)))))) then None else g_string r)
+
+(** val skip_digits : bytes -> bytes **)
+
+let rec skip_digits b = match b with
+| [] -> []
+| c :: r -> if is_digit c then skip_digits r else b
+
+(** val g_frac : bytes -> bytes option **)
+
+let g_frac b = match b with
+| [] -> Some b
+| z0 :: l ->
+  (match z0 with
+   | Zpos p ->
+     (match p with
+      | XO p0 ->
+        (match p0 with
+         | XI p1 ->
+           (match p1 with
+            | XI p2 ->
+              (match p2 with
+               | XI p3 ->
+                 (match p3 with
+                  | XO p4 ->
+                    (match p4 with
+                     | XH ->
+                       (match l with
+                        | [] -> None
+                        | d :: r ->
+                          if is_digit d then Some (skip_digits r) else None)
+                     | _ -> Some b)
+                  | _ -> Some b)
+               | _ -> Some b)
+            | _ -> Some b)
+         | _ -> Some b)
+      | _ -> Some b)
+   | _ -> Some b)
+
+(** val g_exp : bytes -> bytes option **)
+
+let g_exp b = match b with
+| [] -> Some b
+| e :: r ->
+  if (||) (Z.eqb e (Zpos (XI (XO (XI (XO (XO (XI XH))))))))
+       (Z.eqb e (Zpos (XI (XO (XI (XO (XO (XO XH))))))))
+  then let r0 =
+         match r with
+         | [] -> r
+         | s :: r' ->
+           if (||) (Z.eqb s (Zpos (XI (XI (XO (XI (XO XH)))))))
+                (Z.eqb s (Zpos (XI (XO (XI (XI (XO XH)))))))
+           then r'
+           else r
+       in
+       (match r0 with
+        | [] -> None
+        | d :: r' -> if is_digit d then Some (skip_digits r') else None)
+  else Some b
+
+(** val g_number : bytes -> bytes option **)
+
+let g_number b =
+  let b0 =
+    match b with
+    | [] -> b
+    | z0 :: r ->
+      (match z0 with
+       | Zpos p ->
+         (match p with
+          | XI p0 ->
+            (match p0 with
+             | XO p1 ->
+               (match p1 with
+                | XI p2 ->
+                  (match p2 with
+                   | XI p3 ->
+                     (match p3 with
+                      | XO p4 -> (match p4 with
+                                  | XH -> r
+                                  | _ -> b)
+                      | _ -> b)
+                   | _ -> b)
+                | _ -> b)
+             | _ -> b)
+          | _ -> b)
+       | _ -> b)
+  in
+  (match b0 with
+   | [] -> None
+   | c :: r ->
+     (match c with
+      | Zpos p ->
+        (match p with
+         | XO p0 ->
+           (match p0 with
+            | XO p1 ->
+              (match p1 with
+               | XO p2 ->
+                 (match p2 with
+                  | XO p3 ->
+                    (match p3 with
+                     | XI p4 ->
+                       (match p4 with
+                        | XH ->
+                          (match g_frac r with
+                           | Some r0 -> g_exp r0
+                           | None -> None)
+                        | _ ->
+                          if is_digit c
+                          then (match g_frac (skip_digits r) with
+                                | Some r0 -> g_exp r0
+                                | None -> None)
+                          else None)
+                     | _ ->
+                       if is_digit c
+                       then (match g_frac (skip_digits r) with
+                             | Some r0 -> g_exp r0
+                             | None -> None)
+                       else None)
+                  | _ ->
+                    if is_digit c
+                    then (match g_frac (skip_digits r) with
+                          | Some r0 -> g_exp r0
+                          | None -> None)
+                    else None)
+               | _ ->
+                 if is_digit c
+                 then (match g_frac (skip_digits r) with
+                       | Some r0 -> g_exp r0
+                       | None -> None)
+                 else None)
+            | _ ->
+              if is_digit c
+              then (match g_frac (skip_digits r) with
+                    | Some r0 -> g_exp r0
+                    | None -> None)
+              else None)
+         | _ ->
+           if is_digit c
+           then (match g_frac (skip_digits r) with
+                 | Some r0 -> g_exp r0
+                 | None -> None)
+           else None)
+      | _ ->
+        if is_digit c
+        then (match g_frac (skip_digits r) with
+              | Some r0 -> g_exp r0
+              | None -> None)
+        else None))
+
+(** val g_value : nat -> bytes -> bytes option **)
+
+let rec g_value fuel b =
+  match fuel with
+  | O -> None
+  | S f ->
+    (match b with
+     | [] -> g_number b
+     | z0 :: r ->
+       (match z0 with
+        | Zpos p ->
+          (match p with
+           | XI p0 ->
+             (match p0 with
+              | XI p1 ->
+                (match p1 with
+                 | XO p2 ->
+                   (match p2 with
+                    | XI p3 ->
+                      (match p3 with
+                       | XI p4 ->
+                         (match p4 with
+                          | XI p5 ->
+                            (match p5 with
+                             | XH ->
+                               (match skip_ws r with
+                                | [] ->
+                                  let rec members n0 b0 =
+                                    match n0 with
+                                    | O -> None
+                                    | S n' ->
+                                      (match b0 with
+                                       | [] -> None
+                                       | z1 :: k ->
+                                         (match z1 with
+                                          | Zpos p6 ->
+                                            (match p6 with
+                                             | XO p7 ->
+                                               (match p7 with
+                                                | XI p8 ->
+                                                  (match p8 with
+                                                   | XO p9 ->
+                                                     (match p9 with
+                                                      | XO p10 ->
+                                                        (match p10 with
+                                                         | XO p11 ->
+                                                           (match p11 with
+                                                            | XH ->
+                                                              (match 
+                                                               g_string k with
+                                                               | Some r0 ->
+                                                                 (match 
+                                                                  skip_ws r0 with
+                                                                  | [] -> None
+                                                                  | z2 :: r' ->
+                                                                    (match z2 with
+                                                                    | Zpos p12 ->
+                                                                    (match p12 with
+                                                                    | XO p13 ->
+                                                                    (match p13 with
+                                                                    | XI p14 ->
+                                                                    (match p14 with
+                                                                    | XO p15 ->
+                                                                    (match p15 with
+                                                                    | XI p16 ->
+                                                                    (match p16 with
+                                                                    | XI p17 ->
+                                                                    (match p17 with
+                                                                    | XH ->
+                                                                    (match 
+                                                                    g_value f
+                                                                    (skip_ws
+                                                                    r') with
+                                                                    | Some r1 ->
+                                                                    (match 
+                                                                    skip_ws r1 with
+                                                                    | [] ->
+                                                                    None
+                                                                    | z3 :: r'0 ->
+                                                                    (match z3 with
+                                                                    | Zpos p18 ->
+                                                                    (match p18 with
+                                                                    | XI p19 ->
+                                                                    (match p19 with
+                                                                    | XO p20 ->
+                                                                    (match p20 with
+                                                                    | XI p21 ->
+                                                                    (match p21 with
+                                                                    | XI p22 ->
+                                                                    (match p22 with
+                                                                    | XI p23 ->
+                                                                    (match p23 with
+                                                                    | XI p24 ->
+                                                                    (match p24 with
+                                                                    | XH ->
+                                                                    Some r'0
+                                                                    | _ ->
+                                                                    None)
+                                                                    | _ ->
+                                                                    None)
+                                                                    | _ ->
+                                                                    None)
+                                                                    | _ ->
+                                                                    None)
+                                                                    | _ ->
+                                                                    None)
+                                                                    | _ ->
+                                                                    None)
+                                                                    | XO p19 ->
+                                                                    (match p19 with
+                                                                    | XO p20 ->
+                                                                    (match p20 with
+                                                                    | XI p21 ->
+                                                                    (match p21 with
+                                                                    | XI p22 ->
+                                                                    (match p22 with
+                                                                    | XO p23 ->
+                                                                    (match p23 with
+                                                                    | XH ->
+                                                                    members
+                                                                    n'
+                                                                    (skip_ws
+                                                                    r'0)
+                                                                    | _ ->
+                                                                    None)
+                                                                    | _ ->
+                                                                    None)
+                                                                    | _ ->
+                                                                    None)
+                                                                    | _ ->
+                                                                    None)
+                                                                    | _ ->
+                                                                    None)
+                                                                    | XH ->
+                                                                    None)
+                                                                    | _ ->
+                                                                    None))
+                                                                    | None ->
+                                                                    None)
+                                                                    | _ ->
+                                                                    None)
+                                                                    | _ ->
+                                                                    None)
+                                                                    | _ ->
+                                                                    None)
+                                                                    | _ ->
+                                                                    None)
+                                                                    | _ ->
+                                                                    None)
+                                                                    | _ ->
+                                                                    None)
+                                                                    | _ ->
+                                                                    None))
+                                                               | None -> None)
+                                                            | _ -> None)
+                                                         | _ -> None)
+                                                      | _ -> None)
+                                                   | _ -> None)
+                                                | _ -> None)
+                                             | _ -> None)
+                                          | _ -> None))
+                                  in members f []
+                                | z1 :: r' ->
+                                  (match z1 with
+                                   | Zpos p6 ->
+                                     (match p6 with
+                                      | XI p7 ->
+                                        (match p7 with
+                                         | XO p8 ->
+                                           (match p8 with
+                                            | XI p9 ->
+                                              (match p9 with
+                                               | XI p10 ->
+                                                 (match p10 with
+                                                  | XI p11 ->
+                                                    (match p11 with
+                                                     | XI p12 ->
+                                                       (match p12 with
+                                                        | XH -> Some r'
+                                                        | x ->
+                                                          let rec members n0 b0 =
+                                                            match n0 with
+                                                            | O -> None
+                                                            | S n' ->
+                                                              (match b0 with
+                                                               | [] -> None
+                                                               | z2 :: k ->
+                                                                 (match z2 with
+                                                                  | Zpos p13 ->
+                                                                    (match p13 with
+                                                                    | XO p14 ->
+                                                                    (match p14 with
+                                                                    | XI p15 ->
+                                                                    (match p15 with
+                                                                    | XO p16 ->
+                                                                    (match p16 with
+                                                                    | XO p17 ->
+                                                                    (match p17 with
+                                                                    | XO p18 ->
+                                                                    (match p18 with
+                                                                    | XH ->
+                                                                    (match 
+                                                                    g_string k with
+                                                                    | Some r0 ->
+                                                                    (match 
+                                                                    skip_ws r0 with
+                                                                    | [] ->
+                                                                    None
+                                                                    | z3 :: r'0 ->
+                                                                    (match z3 with
+                                                                    | Zpos p19 ->
+                                                                    (match p19 with
+                                                                    | XO p20 ->
+                                                                    (match p20 with
+                                                                    | XI p21 ->
+                                                                    (match p21 with
+                                                                    | XO p22 ->
+                                                                    (match p22 with
+                                                                    | XI p23 ->
+                                                                    (match p23 with
+                                                                    | XI p24 ->
+                                                                    (match p24 with
+                                                                    | XH ->
+                                                                    (match 
+                                                                    g_value f
+                                                                    (skip_ws
+                                                                    r'0) with
+                                                                    | Some r1 ->
+                                                                    (match 
+                                                                    skip_ws r1 with
+                                                                    | [] ->
+                                                                    None
+                                                                    | z4 :: r'1 ->
+                                                                    (match z4 with
+                                                                    | Zpos p25 ->
+                                                                    (match p25 with
+                                                                    | XI p26 ->
+                                                                    (match p26 with
+                                                                    | XO p27 ->
+                                                                    (match p27 with
+                                                                    | XI p28 ->
+                                                                    (match p28 with
+                                                                    | XI p29 ->
+                                                                    (match p29 with
+                                                                    | XI p30 ->
+                                                                    (match p30 with
+                                                                    | XI p31 ->
+                                                                    (match p31 with
+                                                                    | XH ->
+                                                                    Some r'1
+                                                                    | _ ->
+                                                                    None)
+                                                                    | _ ->
+                                                                    None)
+                                                                    | _ ->
+                                                                    None)
+                                                                    | _ ->
+                                                                    None)
+                                                                    | _ ->
+                                                                    None)
+                                                                    | _ ->
+                                                                    None)
+                                                                    | XO p26 ->
+                                                                    (match p26 with
+                                                                    | XO p27 ->
+                                                                    (match p27 with
+                                                                    | XI p28 ->
+                                                                    (match p28 with
+                                                                    | XI p29 ->
+                                                                    (match p29 with
+                                                                    | XO p30 ->
+                                                                    (match p30 with
+                                                                    | XH ->
+                                                                    members
+                                                                    n'
+                                                                    (skip_ws
+                                                                    r'1)
+                                                                    | _ ->
+                                                                    None)
+                                                                    | _ ->
+                                                                    None)
+                                                                    | _ ->
+                                                                    None)
+                                                                    | _ ->
+                                                                    None)
+                                                                    | _ ->
+                                                                    None)
+                                                                    | XH ->
+                                                                    None)
+                                                                    | _ ->
+                                                                    None))
+                                                                    | None ->
+                                                                    None)
+                                                                    | _ ->
+                                                                    None)
+                                                                    | _ ->
+                                                                    None)
+                                                                    | _ ->
+                                                                    None)
+                                                                    | _ ->
+                                                                    None)
+                                                                    | _ ->
+                                                                    None)
+                                                                    | _ ->
+                                                                    None)
+                                                                    | _ ->
+                                                                    None))
+                                                                    | None ->
+                                                                    None)
+                                                                    | _ ->
+                                                                    None)
+                                                                    | _ ->
+                                                                    None)
+                                                                    | _ ->
+                                                                    None)
+                                                                    | _ ->
+                                                                    None)
+                                                                    | _ ->
+                                                                    None)
+                                                                    | _ ->
+                                                                    None)
+                                                                  | _ -> None))
+                                                          in members f ((Zpos
+                                                               (XI (XO (XI
+                                                               (XI (XI (XI
+                                                               x))))))) :: r'))
+                                                     | x ->
+                                                       let rec members n0 b0 =
+                                                         match n0 with
+                                                         | O -> None
+                                                         | S n' ->
+                                                           (match b0 with
+                                                            | [] -> None
+                                                            | z2 :: k ->
+                                                              (match z2 with
+                                                               | Zpos p12 ->
+                                                                 (match p12 with
+                                                                  | XO p13 ->
+                                                                    (match p13 with
+                                                                    | XI p14 ->
+                                                                    (match p14 with
+                                                                    | XO p15 ->
+                                                                    (match p15 with
+                                                                    | XO p16 ->
+                                                                    (match p16 with
+                                                                    | XO p17 ->
+                                                                    (match p17 with
+                                                                    | XH ->
+                                                                    (match 
+                                                                    g_string k with
+                                                                    | Some r0 ->
+                                                                    (match 
+                                                                    skip_ws r0 with
+                                                                    | [] ->
+                                                                    None
+                                                                    | z3 :: r'0 ->
+                                                                    (match z3 with
+                                                                    | Zpos p18 ->
+                                                                    (match p18 with
+                                                                    | XO p19 ->
+                                                                    (match p19 with
+                                                                    | XI p20 ->
+                                                                    (match p20 with
+                                                                    | XO p21 ->
+                                                                    (match p21 with
+                                                                    | XI p22 ->
+                                                                    (match p22 with
+                                                                    | XI p23 ->
+                                                                    (match p23 with
+                                                                    | XH ->
+                                                                    (match 
+                                                                    g_value f
+                                                                    (skip_ws
+                                                                    r'0) with
+                                                                    | Some r1 ->
+                                                                    (match 
+                                                                    skip_ws r1 with
+                                                                    | [] ->
+                                                                    None
+                                                                    | z4 :: r'1 ->
+                                                                    (match z4 with
+                                                                    | Zpos p24 ->
+                                                                    (match p24 with
+                                                                    | XI p25 ->
+                                                                    (match p25 with
+                                                                    | XO p26 ->
+                                                                    (match p26 with
+                                                                    | XI p27 ->
+                                                                    (match p27 with
+                                                                    | XI p28 ->
+                                                                    (match p28 with
+                                                                    | XI p29 ->
+                                                                    (match p29 with
+                                                                    | XI p30 ->
+                                                                    (match p30 with
+                                                                    | XH ->
+                                                                    Some r'1
+                                                                    | _ ->
+                                                                    None)
+                                                                    | _ ->
+                                                                    None)
+                                                                    | _ ->
+                                                                    None)
+                                                                    | _ ->
+                                                                    None)
+                                                                    | _ ->
+                                                                    None)
+                                                                    | _ ->
+                                                                    None)
+                                                                    | XO p25 ->
+                                                                    (match p25 with
+                                                                    | XO p26 ->
+                                                                    (match p26 with
+                                                                    | XI p27 ->
+                                                                    (match p27 with
+                                                                    | XI p28 ->
+                                                                    (match p28 with
+                                                                    | XO p29 ->
+                                                                    (match p29 with
+                                                                    | XH ->
+                                                                    members
+                                                                    n'
+                                                                    (skip_ws
+                                                                    r'1)
+                                                                    | _ ->
+                                                                    None)
+                                                                    | _ ->
+                                                                    None)
+                                                                    | _ ->
+                                                                    None)
+                                                                    | _ ->
+                                                                    None)
+                                                                    | _ ->
+                                                                    None)
+                                                                    | XH ->
+                                                                    None)
+                                                                    | _ ->
+                                                                    None))
+                                                                    | None ->
+                                                                    None)
+                                                                    | _ ->
+                                                                    None)
+                                                                    | _ ->
+                                                                    None)
+                                                                    | _ ->
+                                                                    None)
+                                                                    | _ ->
+                                                                    None)
+                                                                    | _ ->
+                                                                    None)
+                                                                    | _ ->
+                                                                    None)
+                                                                    | _ ->
+                                                                    None))
+                                                                    | None ->
+                                                                    None)
+                                                                    | _ ->
+                                                                    None)
+                                                                    | _ ->
+                                                                    None)
+                                                                    | _ ->
+                                                                    None)
+                                                                    | _ ->
+                                                                    None)
+                                                                    | _ ->
+                                                                    None)
+                                                                  | _ -> None)
+                                                               | _ -> None))
+                                                       in members f ((Zpos
+                                                            (XI (XO (XI (XI
+                                                            (XI x)))))) :: r'))
+                                                  | x ->
+                                                    let rec members n0 b0 =
+                                                      match n0 with
+                                                      | O -> None
+                                                      | S n' ->
+                                                        (match b0 with
+                                                         | [] -> None
+                                                         | z2 :: k ->
+                                                           (match z2 with
+                                                            | Zpos p11 ->
+                                                              (match p11 with
+                                                               | XO p12 ->
+                                                                 (match p12 with
+                                                                  | XI p13 ->
+                                                                    (match p13 with
+                                                                    | XO p14 ->
+                                                                    (match p14 with
+                                                                    | XO p15 ->
+                                                                    (match p15 with
+                                                                    | XO p16 ->
+                                                                    (match p16 with
+                                                                    | XH ->
+                                                                    (match 
+                                                                    g_string k with
+                                                                    | Some r0 ->
+                                                                    (match 
+                                                                    skip_ws r0 with
+                                                                    | [] ->
+                                                                    None
+                                                                    | z3 :: r'0 ->
+                                                                    (match z3 with
+                                                                    | Zpos p17 ->
+                                                                    (match p17 with
+                                                                    | XO p18 ->
+                                                                    (match p18 with
+                                                                    | XI p19 ->
+                                                                    (match p19 with
+                                                                    | XO p20 ->
+                                                                    (match p20 with
+                                                                    | XI p21 ->
+                                                                    (match p21 with
+                                                                    | XI p22 ->
+                                                                    (match p22 with
+                                                                    | XH ->
+                                                                    (match 
+                                                                    g_value f
+                                                                    (skip_ws
+                                                                    r'0) with
+                                                                    | Some r1 ->
+                                                                    (match 
+                                                                    skip_ws r1 with
+                                                                    | [] ->
+                                                                    None
+                                                                    | z4 :: r'1 ->
+                                                                    (match z4 with
+                                                                    | Zpos p23 ->
+                                                                    (match p23 with
+                                                                    | XI p24 ->
+                                                                    (match p24 with
+                                                                    | XO p25 ->
+                                                                    (match p25 with
+                                                                    | XI p26 ->
+                                                                    (match p26 with
+                                                                    | XI p27 ->
+                                                                    (match p27 with
+                                                                    | XI p28 ->
+                                                                    (match p28 with
+                                                                    | XI p29 ->
+                                                                    (match p29 with
+                                                                    | XH ->
+                                                                    Some r'1
+                                                                    | _ ->
+                                                                    None)
+                                                                    | _ ->
+                                                                    None)
+                                                                    | _ ->
+                                                                    None)
+                                                                    | _ ->
+                                                                    None)
+                                                                    | _ ->
+                                                                    None)
+                                                                    | _ ->
+                                                                    None)
+                                                                    | XO p24 ->
+                                                                    (match p24 with
+                                                                    | XO p25 ->
+                                                                    (match p25 with
+                                                                    | XI p26 ->
+                                                                    (match p26 with
+                                                                    | XI p27 ->
+                                                                    (match p27 with
+                                                                    | XO p28 ->
+                                                                    (match p28 with
+                                                                    | XH ->
+                                                                    members
+                                                                    n'
+                                                                    (skip_ws
+                                                                    r'1)
+                                                                    | _ ->
+                                                                    None)
+                                                                    | _ ->
+                                                                    None)
+                                                                    | _ ->
+                                                                    None)
+                                                                    | _ ->
+                                                                    None)
+                                                                    | _ ->
+                                                                    None)
+                                                                    | XH ->
+                                                                    None)
+                                                                    | _ ->
+                                                                    None))
+                                                                    | None ->
+                                                                    None)
+                                                                    | _ ->
+                                                                    None)
+                                                                    | _ ->
+                                                                    None)
+                                                                    | _ ->
+                                                                    None)
+                                                                    | _ ->
+                                                                    None)
+                                                                    | _ ->
+                                                                    None)
+                                                                    | _ ->
+                                                                    None)
+                                                                    | _ ->
+                                                                    None))
+                                                                    | None ->
+                                                                    None)
+                                                                    | _ ->
+                                                                    None)
+                                                                    | _ ->
+                                                                    None)
+                                                                    | _ ->
+                                                                    None)
+                                                                    | _ ->
+                                                                    None)
+                                                                  | _ -> None)
+                                                               | _ -> None)
+                                                            | _ -> None))
+                                                    in members f ((Zpos (XI
+                                                         (XO (XI (XI
+                                                         x))))) :: r'))
+                                               | x ->
+                                                 let rec members n0 b0 =
+                                                   match n0 with
+                                                   | O -> None
+                                                   | S n' ->
+                                                     (match b0 with
+                                                      | [] -> None
+                                                      | z2 :: k ->
+                                                        (match z2 with
+                                                         | Zpos p10 ->
+                                                           (match p10 with
+                                                            | XO p11 ->
+                                                              (match p11 with
+                                                               | XI p12 ->
+                                                                 (match p12 with
+                                                                  | XO p13 ->
+                                                                    (match p13 with
+                                                                    | XO p14 ->
+                                                                    (match p14 with
+                                                                    | XO p15 ->
+                                                                    (match p15 with
+                                                                    | XH ->
+                                                                    (match 
+                                                                    g_string k with
+                                                                    | Some r0 ->
+                                                                    (match 
+                                                                    skip_ws r0 with
+                                                                    | [] ->
+                                                                    None
+                                                                    | z3 :: r'0 ->
+                                                                    (match z3 with
+                                                                    | Zpos p16 ->
+                                                                    (match p16 with
+                                                                    | XO p17 ->
+                                                                    (match p17 with
+                                                                    | XI p18 ->
+                                                                    (match p18 with
+                                                                    | XO p19 ->
+                                                                    (match p19 with
+                                                                    | XI p20 ->
+                                                                    (match p20 with
+                                                                    | XI p21 ->
+                                                                    (match p21 with
+                                                                    | XH ->
+                                                                    (match 
+                                                                    g_value f
+                                                                    (skip_ws
+                                                                    r'0) with
+                                                                    | Some r1 ->
+                                                                    (match 
+                                                                    skip_ws r1 with
+                                                                    | [] ->
+                                                                    None
+                                                                    | z4 :: r'1 ->
+                                                                    (match z4 with
+                                                                    | Zpos p22 ->
+                                                                    (match p22 with
+                                                                    | XI p23 ->
+                                                                    (match p23 with
+                                                                    | XO p24 ->
+                                                                    (match p24 with
+                                                                    | XI p25 ->
+                                                                    (match p25 with
+                                                                    | XI p26 ->
+                                                                    (match p26 with
+                                                                    | XI p27 ->
+                                                                    (match p27 with
+                                                                    | XI p28 ->
+                                                                    (match p28 with
+                                                                    | XH ->
+                                                                    Some r'1
+                                                                    | _ ->
+                                                                    None)
+                                                                    | _ ->
+                                                                    None)
+                                                                    | _ ->
+                                                                    None)
+                                                                    | _ ->
+                                                                    None)
+                                                                    | _ ->
+                                                                    None)
+                                                                    | _ ->
+                                                                    None)
+                                                                    | XO p23 ->
+                                                                    (match p23 with
+                                                                    | XO p24 ->
+                                                                    (match p24 with
+                                                                    | XI p25 ->
+                                                                    (match p25 with
+                                                                    | XI p26 ->
+                                                                    (match p26 with
+                                                                    | XO p27 ->
+                                                                    (match p27 with
+                                                                    | XH ->
+                                                                    members
+                                                                    n'
+                                                                    (skip_ws
+                                                                    r'1)
+                                                                    | _ ->
+                                                                    None)
+                                                                    | _ ->
+                                                                    None)
+                                                                    | _ ->
+                                                                    None)
+                                                                    | _ ->
+                                                                    None)
+                                                                    | _ ->
+                                                                    None)
+                                                                    | XH ->
+                                                                    None)
+                                                                    | _ ->
+                                                                    None))
+                                                                    | None ->
+                                                                    None)
+                                                                    | _ ->
+                                                                    None)
+                                                                    | _ ->
+                                                                    None)
+                                                                    | _ ->
+                                                                    None)
+                                                                    | _ ->
+                                                                    None)
+                                                                    | _ ->
+                                                                    None)
+                                                                    | _ ->
+                                                                    None)
+                                                                    | _ ->
+                                                                    None))
+                                                                    | None ->
+                                                                    None)
+                                                                    | _ ->
+                                                                    None)
+                                                                    | _ ->
+                                                                    None)
+                                                                    | _ ->
+                                                                    None)
+                                                                  | _ -> None)
+                                                               | _ -> None)
+                                                            | _ -> None)
+                                                         | _ -> None))
+                                                 in members f ((Zpos (XI (XO
+                                                      (XI x)))) :: r'))
+                                            | x ->
+                                              let rec members n0 b0 =
+                                                match n0 with
+                                                | O -> None
+                                                | S n' ->
+                                                  (match b0 with
+                                                   | [] -> None
+                                                   | z2 :: k ->
+                                                     (match z2 with
+                                                      | Zpos p9 ->
+                                                        (match p9 with
+                                                         | XO p10 ->
+                                                           (match p10 with
+                                                            | XI p11 ->
+                                                              (match p11 with
+                                                               | XO p12 ->
+                                                                 (match p12 with
+                                                                  | XO p13 ->
+                                                                    (match p13 with
+                                                                    | XO p14 ->
+                                                                    (match p14 with
+                                                                    | XH ->
+                                                                    (match 
+                                                                    g_string k with
+                                                                    | Some r0 ->
+                                                                    (match 
+                                                                    skip_ws r0 with
+                                                                    | [] ->
+                                                                    None
+                                                                    | z3 :: r'0 ->
+                                                                    (match z3 with
+                                                                    | Zpos p15 ->
+                                                                    (match p15 with
+                                                                    | XO p16 ->
+                                                                    (match p16 with
+                                                                    | XI p17 ->
+                                                                    (match p17 with
+                                                                    | XO p18 ->
+                                                                    (match p18 with
+                                                                    | XI p19 ->
+                                                                    (match p19 with
+                                                                    | XI p20 ->
+                                                                    (match p20 with
+                                                                    | XH ->
+                                                                    (match 
+                                                                    g_value f
+                                                                    (skip_ws
+                                                                    r'0) with
+                                                                    | Some r1 ->
+                                                                    (match 
+                                                                    skip_ws r1 with
+                                                                    | [] ->
+                                                                    None
+                                                                    | z4 :: r'1 ->
+                                                                    (match z4 with
+                                                                    | Zpos p21 ->
+                                                                    (match p21 with
+                                                                    | XI p22 ->
+                                                                    (match p22 with
+                                                                    | XO p23 ->
+                                                                    (match p23 with
+                                                                    | XI p24 ->
+                                                                    (match p24 with
+                                                                    | XI p25 ->
+                                                                    (match p25 with
+                                                                    | XI p26 ->
+                                                                    (match p26 with
+                                                                    | XI p27 ->
+                                                                    (match p27 with
+                                                                    | XH ->
+                                                                    Some r'1
+                                                                    | _ ->
+                                                                    None)
+                                                                    | _ ->
+                                                                    None)
+                                                                    | _ ->
+                                                                    None)
+                                                                    | _ ->
+                                                                    None)
+                                                                    | _ ->
+                                                                    None)
+                                                                    | _ ->
+                                                                    None)
+                                                                    | XO p22 ->
+                                                                    (match p22 with
+                                                                    | XO p23 ->
+                                                                    (match p23 with
+                                                                    | XI p24 ->
+                                                                    (match p24 with
+                                                                    | XI p25 ->
+                                                                    (match p25 with
+                                                                    | XO p26 ->
+                                                                    (match p26 with
+                                                                    | XH ->
+                                                                    members
+                                                                    n'
+                                                                    (skip_ws
+                                                                    r'1)
+                                                                    | _ ->
+                                                                    None)
+                                                                    | _ ->
+                                                                    None)
+                                                                    | _ ->
+                                                                    None)
+                                                                    | _ ->
+                                                                    None)
+                                                                    | _ ->
+                                                                    None)
+                                                                    | XH ->
+                                                                    None)
+                                                                    | _ ->
+                                                                    None))
+                                                                    | None ->
+                                                                    None)
+                                                                    | _ ->
+                                                                    None)
+                                                                    | _ ->
+                                                                    None)
+                                                                    | _ ->
+                                                                    None)
+                                                                    | _ ->
+                                                                    None)
+                                                                    | _ ->
+                                                                    None)
+                                                                    | _ ->
+                                                                    None)
+                                                                    | _ ->
+                                                                    None))
+                                                                    | None ->
+                                                                    None)
+                                                                    | _ ->
+                                                                    None)
+                                                                    | _ ->
+                                                                    None)
+                                                                  | _ -> None)
+                                                               | _ -> None)
+                                                            | _ -> None)
+                                                         | _ -> None)
+                                                      | _ -> None))
+                                              in members f ((Zpos (XI (XO
+                                                   x))) :: r'))
+                                         | x ->
+                                           let rec members n0 b0 =
+                                             match n0 with
+                                             | O -> None
+                                             | S n' ->
+                                               (match b0 with
+                                                | [] -> None
+                                                | z2 :: k ->
+                                                  (match z2 with
+                                                   | Zpos p8 ->
+                                                     (match p8 with
+                                                      | XO p9 ->
+                                                        (match p9 with
+                                                         | XI p10 ->
+                                                           (match p10 with
+                                                            | XO p11 ->
+                                                              (match p11 with
+                                                               | XO p12 ->
+                                                                 (match p12 with
+                                                                  | XO p13 ->
+                                                                    (match p13 with
+                                                                    | XH ->
+                                                                    (match 
+                                                                    g_string k with
+                                                                    | Some r0 ->
+                                                                    (match 
+                                                                    skip_ws r0 with
+                                                                    | [] ->
+                                                                    None
+                                                                    | z3 :: r'0 ->
+                                                                    (match z3 with
+                                                                    | Zpos p14 ->
+                                                                    (match p14 with
+                                                                    | XO p15 ->
+                                                                    (match p15 with
+                                                                    | XI p16 ->
+                                                                    (match p16 with
+                                                                    | XO p17 ->
+                                                                    (match p17 with
+                                                                    | XI p18 ->
+                                                                    (match p18 with
+                                                                    | XI p19 ->
+                                                                    (match p19 with
+                                                                    | XH ->
+                                                                    (match 
+                                                                    g_value f
+                                                                    (skip_ws
+                                                                    r'0) with
+                                                                    | Some r1 ->
+                                                                    (match 
+                                                                    skip_ws r1 with
+                                                                    | [] ->
+                                                                    None
+                                                                    | z4 :: r'1 ->
+                                                                    (match z4 with
+                                                                    | Zpos p20 ->
+                                                                    (match p20 with
+                                                                    | XI p21 ->
+                                                                    (match p21 with
+                                                                    | XO p22 ->
+                                                                    (match p22 with
+                                                                    | XI p23 ->
+                                                                    (match p23 with
+                                                                    | XI p24 ->
+                                                                    (match p24 with
+                                                                    | XI p25 ->
+                                                                    (match p25 with
+                                                                    | XI p26 ->
+                                                                    (match p26 with
+                                                                    | XH ->
+                                                                    Some r'1
+                                                                    | _ ->
+                                                                    None)
+                                                                    | _ ->
+                                                                    None)
+                                                                    | _ ->
+                                                                    None)
+                                                                    | _ ->
+                                                                    None)
+                                                                    | _ ->
+                                                                    None)
+                                                                    | _ ->
+                                                                    None)
+                                                                    | XO p21 ->
+                                                                    (match p21 with
+                                                                    | XO p22 ->
+                                                                    (match p22 with
+                                                                    | XI p23 ->
+                                                                    (match p23 with
+                                                                    | XI p24 ->
+                                                                    (match p24 with
+                                                                    | XO p25 ->
+                                                                    (match p25 with
+                                                                    | XH ->
+                                                                    members
+                                                                    n'
+                                                                    (skip_ws
+                                                                    r'1)
+                                                                    | _ ->
+                                                                    None)
+                                                                    | _ ->
+                                                                    None)
+                                                                    | _ ->
+                                                                    None)
+                                                                    | _ ->
+                                                                    None)
+                                                                    | _ ->
+                                                                    None)
+                                                                    | XH ->
+                                                                    None)
+                                                                    | _ ->
+                                                                    None))
+                                                                    | None ->
+                                                                    None)
+                                                                    | _ ->
+                                                                    None)
+                                                                    | _ ->
+                                                                    None)
+                                                                    | _ ->
+                                                                    None)
+                                                                    | _ ->
+                                                                    None)
+                                                                    | _ ->
+                                                                    None)
+                                                                    | _ ->
+                                                                    None)
+                                                                    | _ ->
+                                                                    None))
+                                                                    | None ->
+                                                                    None)
+                                                                    | _ ->
+                                                                    None)
+                                                                  | _ -> None)
+                                                               | _ -> None)
+                                                            | _ -> None)
+                                                         | _ -> None)
+                                                      | _ -> None)
+                                                   | _ -> None))
+                                           in members f ((Zpos (XI x)) :: r'))
+                                      | x ->
+                                        let rec members n0 b0 =
+                                          match n0 with
+                                          | O -> None
+                                          | S n' ->
+                                            (match b0 with
+                                             | [] -> None
+                                             | z2 :: k ->
+                                               (match z2 with
+                                                | Zpos p7 ->
+                                                  (match p7 with
+                                                   | XO p8 ->
+                                                     (match p8 with
+                                                      | XI p9 ->
+                                                        (match p9 with
+                                                         | XO p10 ->
+                                                           (match p10 with
+                                                            | XO p11 ->
+                                                              (match p11 with
+                                                               | XO p12 ->
+                                                                 (match p12 with
+                                                                  | XH ->
+                                                                    (match 
+                                                                    g_string k with
+                                                                    | Some r0 ->
+                                                                    (match 
+                                                                    skip_ws r0 with
+                                                                    | [] ->
+                                                                    None
+                                                                    | z3 :: r'0 ->
+                                                                    (match z3 with
+                                                                    | Zpos p13 ->
+                                                                    (match p13 with
+                                                                    | XO p14 ->
+                                                                    (match p14 with
+                                                                    | XI p15 ->
+                                                                    (match p15 with
+                                                                    | XO p16 ->
+                                                                    (match p16 with
+                                                                    | XI p17 ->
+                                                                    (match p17 with
+                                                                    | XI p18 ->
+                                                                    (match p18 with
+                                                                    | XH ->
+                                                                    (match 
+                                                                    g_value f
+                                                                    (skip_ws
+                                                                    r'0) with
+                                                                    | Some r1 ->
+                                                                    (match 
+                                                                    skip_ws r1 with
+                                                                    | [] ->
+                                                                    None
+                                                                    | z4 :: r'1 ->
+                                                                    (match z4 with
+                                                                    | Zpos p19 ->
+                                                                    (match p19 with
+                                                                    | XI p20 ->
+                                                                    (match p20 with
+                                                                    | XO p21 ->
+                                                                    (match p21 with
+                                                                    | XI p22 ->
+                                                                    (match p22 with
+                                                                    | XI p23 ->
+                                                                    (match p23 with
+                                                                    | XI p24 ->
+                                                                    (match p24 with
+                                                                    | XI p25 ->
+                                                                    (match p25 with
+                                                                    | XH ->
+                                                                    Some r'1
+                                                                    | _ ->
+                                                                    None)
+                                                                    | _ ->
+                                                                    None)
+                                                                    | _ ->
+                                                                    None)
+                                                                    | _ ->
+                                                                    None)
+                                                                    | _ ->
+                                                                    None)
+                                                                    | _ ->
+                                                                    None)
+                                                                    | XO p20 ->
+                                                                    (match p20 with
+                                                                    | XO p21 ->
+                                                                    (match p21 with
+                                                                    | XI p22 ->
+                                                                    (match p22 with
+                                                                    | XI p23 ->
+                                                                    (match p23 with
+                                                                    | XO p24 ->
+                                                                    (match p24 with
+                                                                    | XH ->
+                                                                    members
+                                                                    n'
+                                                                    (skip_ws
+                                                                    r'1)
+                                                                    | _ ->
+                                                                    None)
+                                                                    | _ ->
+                                                                    None)
+                                                                    | _ ->
+                                                                    None)
+                                                                    | _ ->
+                                                                    None)
+                                                                    | _ ->
+                                                                    None)
+                                                                    | XH ->
+                                                                    None)
+                                                                    | _ ->
+                                                                    None))
+                                                                    | None ->
+                                                                    None)
+                                                                    | _ ->
+                                                                    None)
+                                                                    | _ ->
+                                                                    None)
+                                                                    | _ ->
+                                                                    None)
+                                                                    | _ ->
+                                                                    None)
+                                                                    | _ ->
+                                                                    None)
+                                                                    | _ ->
+                                                                    None)
+                                                                    | _ ->
+                                                                    None))
+                                                                    | None ->
+                                                                    None)
+                                                                  | _ -> None)
+                                                               | _ -> None)
+                                                            | _ -> None)
+                                                         | _ -> None)
+                                                      | _ -> None)
+                                                   | _ -> None)
+                                                | _ -> None))
+                                        in members f ((Zpos x) :: r'))
+                                   | x ->
+                                     let rec members n0 b0 =
+                                       match n0 with
+                                       | O -> None
+                                       | S n' ->
+                                         (match b0 with
+                                          | [] -> None
+                                          | z2 :: k ->
+                                            (match z2 with
+                                             | Zpos p6 ->
+                                               (match p6 with
+                                                | XO p7 ->
+                                                  (match p7 with
+                                                   | XI p8 ->
+                                                     (match p8 with
+                                                      | XO p9 ->
+                                                        (match p9 with
+                                                         | XO p10 ->
+                                                           (match p10 with
+                                                            | XO p11 ->
+                                                              (match p11 with
+                                                               | XH ->
+                                                                 (match 
+                                                                  g_string k with
+                                                                  | Some r0 ->
+                                                                    (match 
+                                                                    skip_ws r0 with
+                                                                    | [] ->
+                                                                    None
+                                                                    | z3 :: r'0 ->
+                                                                    (match z3 with
+                                                                    | Zpos p12 ->
+                                                                    (match p12 with
+                                                                    | XO p13 ->
+                                                                    (match p13 with
+                                                                    | XI p14 ->
+                                                                    (match p14 with
+                                                                    | XO p15 ->
+                                                                    (match p15 with
+                                                                    | XI p16 ->
+                                                                    (match p16 with
+                                                                    | XI p17 ->
+                                                                    (match p17 with
+                                                                    | XH ->
+                                                                    (match 
+                                                                    g_value f
+                                                                    (skip_ws
+                                                                    r'0) with
+                                                                    | Some r1 ->
+                                                                    (match 
+                                                                    skip_ws r1 with
+                                                                    | [] ->
+                                                                    None
+                                                                    | z4 :: r'1 ->
+                                                                    (match z4 with
+                                                                    | Zpos p18 ->
+                                                                    (match p18 with
+                                                                    | XI p19 ->
+                                                                    (match p19 with
+                                                                    | XO p20 ->
+                                                                    (match p20 with
+                                                                    | XI p21 ->
+                                                                    (match p21 with
+                                                                    | XI p22 ->
+                                                                    (match p22 with
+                                                                    | XI p23 ->
+                                                                    (match p23 with
+                                                                    | XI p24 ->
+                                                                    (match p24 with
+                                                                    | XH ->
+                                                                    Some r'1
+                                                                    | _ ->
+                                                                    None)
+                                                                    | _ ->
+                                                                    None)
+                                                                    | _ ->
+                                                                    None)
+                                                                    | _ ->
+                                                                    None)
+                                                                    | _ ->
+                                                                    None)
+                                                                    | _ ->
+                                                                    None)
+                                                                    | XO p19 ->
+                                                                    (match p19 with
+                                                                    | XO p20 ->
+                                                                    (match p20 with
+                                                                    | XI p21 ->
+                                                                    (match p21 with
+                                                                    | XI p22 ->
+                                                                    (match p22 with
+                                                                    | XO p23 ->
+                                                                    (match p23 with
+                                                                    | XH ->
+                                                                    members
+                                                                    n'
+                                                                    (skip_ws
+                                                                    r'1)
+                                                                    | _ ->
+                                                                    None)
+                                                                    | _ ->
+                                                                    None)
+                                                                    | _ ->
+                                                                    None)
+                                                                    | _ ->
+                                                                    None)
+                                                                    | _ ->
+                                                                    None)
+                                                                    | XH ->
+                                                                    None)
+                                                                    | _ ->
+                                                                    None))
+                                                                    | None ->
+                                                                    None)
+                                                                    | _ ->
+                                                                    None)
+                                                                    | _ ->
+                                                                    None)
+                                                                    | _ ->
+                                                                    None)
+                                                                    | _ ->
+                                                                    None)
+                                                                    | _ ->
+                                                                    None)
+                                                                    | _ ->
+                                                                    None)
+                                                                    | _ ->
+                                                                    None))
+                                                                  | None ->
+                                                                    None)
+                                                               | _ -> None)
+                                                            | _ -> None)
+                                                         | _ -> None)
+                                                      | _ -> None)
+                                                   | _ -> None)
+                                                | _ -> None)
+                                             | _ -> None))
+                                     in members f (x :: r')))
+                             | _ -> g_number b)
+                          | XO p5 ->
+                            (match p5 with
+                             | XH ->
+                               (match skip_ws r with
+                                | [] ->
+                                  let rec elems n0 b0 =
+                                    match n0 with
+                                    | O -> None
+                                    | S n' ->
+                                      (match g_value f b0 with
+                                       | Some r0 ->
+                                         (match skip_ws r0 with
+                                          | [] -> None
+                                          | z1 :: r' ->
+                                            (match z1 with
+                                             | Zpos p6 ->
+                                               (match p6 with
+                                                | XI p7 ->
+                                                  (match p7 with
+                                                   | XO p8 ->
+                                                     (match p8 with
+                                                      | XI p9 ->
+                                                        (match p9 with
+                                                         | XI p10 ->
+                                                           (match p10 with
+                                                            | XI p11 ->
+                                                              (match p11 with
+                                                               | XO p12 ->
+                                                                 (match p12 with
+                                                                  | XH ->
+                                                                    Some r'
+                                                                  | _ -> None)
+                                                               | _ -> None)
+                                                            | _ -> None)
+                                                         | _ -> None)
+                                                      | _ -> None)
+                                                   | _ -> None)
+                                                | XO p7 ->
+                                                  (match p7 with
+                                                   | XO p8 ->
+                                                     (match p8 with
+                                                      | XI p9 ->
+                                                        (match p9 with
+                                                         | XI p10 ->
+                                                           (match p10 with
+                                                            | XO p11 ->
+                                                              (match p11 with
+                                                               | XH ->
+                                                                 elems n'
+                                                                   (skip_ws
+                                                                    r')
+                                                               | _ -> None)
+                                                            | _ -> None)
+                                                         | _ -> None)
+                                                      | _ -> None)
+                                                   | _ -> None)
+                                                | XH -> None)
+                                             | _ -> None))
+                                       | None -> None)
+                                  in elems f []
+                                | z1 :: r' ->
+                                  (match z1 with
+                                   | Zpos p6 ->
+                                     (match p6 with
+                                      | XI p7 ->
+                                        (match p7 with
+                                         | XO p8 ->
+                                           (match p8 with
+                                            | XI p9 ->
+                                              (match p9 with
+                                               | XI p10 ->
+                                                 (match p10 with
+                                                  | XI p11 ->
+                                                    (match p11 with
+                                                     | XO p12 ->
+                                                       (match p12 with
+                                                        | XH -> Some r'
+                                                        | x ->
+                                                          let rec elems n0 b0 =
+                                                            match n0 with
+                                                            | O -> None
+                                                            | S n' ->
+                                                              (match 
+                                                               g_value f b0 with
+                                                               | Some r0 ->
+                                                                 (match 
+                                                                  skip_ws r0 with
+                                                                  | [] -> None
+                                                                  | z2 :: r'0 ->
+                                                                    (match z2 with
+                                                                    | Zpos p13 ->
+                                                                    (match p13 with
+                                                                    | XI p14 ->
+                                                                    (match p14 with
+                                                                    | XO p15 ->
+                                                                    (match p15 with
+                                                                    | XI p16 ->
+                                                                    (match p16 with
+                                                                    | XI p17 ->
+                                                                    (match p17 with
+                                                                    | XI p18 ->
+                                                                    (match p18 with
+                                                                    | XO p19 ->
+                                                                    (match p19 with
+                                                                    | XH ->
+                                                                    Some r'0
+                                                                    | _ ->
+                                                                    None)
+                                                                    | _ ->
+                                                                    None)
+                                                                    | _ ->
+                                                                    None)
+                                                                    | _ ->
+                                                                    None)
+                                                                    | _ ->
+                                                                    None)
+                                                                    | _ ->
+                                                                    None)
+                                                                    | XO p14 ->
+                                                                    (match p14 with
+                                                                    | XO p15 ->
+                                                                    (match p15 with
+                                                                    | XI p16 ->
+                                                                    (match p16 with
+                                                                    | XI p17 ->
+                                                                    (match p17 with
+                                                                    | XO p18 ->
+                                                                    (match p18 with
+                                                                    | XH ->
+                                                                    elems n'
+                                                                    (skip_ws
+                                                                    r'0)
+                                                                    | _ ->
+                                                                    None)
+                                                                    | _ ->
+                                                                    None)
+                                                                    | _ ->
+                                                                    None)
+                                                                    | _ ->
+                                                                    None)
+                                                                    | _ ->
+                                                                    None)
+                                                                    | XH ->
+                                                                    None)
+                                                                    | _ ->
+                                                                    None))
+                                                               | None -> None)
+                                                          in elems f ((Zpos
+                                                               (XI (XO (XI
+                                                               (XI (XI (XO
+                                                               x))))))) :: r'))
+                                                     | x ->
+                                                       let rec elems n0 b0 =
+                                                         match n0 with
+                                                         | O -> None
+                                                         | S n' ->
+                                                           (match g_value f b0 with
+                                                            | Some r0 ->
+                                                              (match 
+                                                               skip_ws r0 with
+                                                               | [] -> None
+                                                               | z2 :: r'0 ->
+                                                                 (match z2 with
+                                                                  | Zpos p12 ->
+                                                                    (match p12 with
+                                                                    | XI p13 ->
+                                                                    (match p13 with
+                                                                    | XO p14 ->
+                                                                    (match p14 with
+                                                                    | XI p15 ->
+                                                                    (match p15 with
+                                                                    | XI p16 ->
+                                                                    (match p16 with
+                                                                    | XI p17 ->
+                                                                    (match p17 with
+                                                                    | XO p18 ->
+                                                                    (match p18 with
+                                                                    | XH ->
+                                                                    Some r'0
+                                                                    | _ ->
+                                                                    None)
+                                                                    | _ ->
+                                                                    None)
+                                                                    | _ ->
+                                                                    None)
+                                                                    | _ ->
+                                                                    None)
+                                                                    | _ ->
+                                                                    None)
+                                                                    | _ ->
+                                                                    None)
+                                                                    | XO p13 ->
+                                                                    (match p13 with
+                                                                    | XO p14 ->
+                                                                    (match p14 with
+                                                                    | XI p15 ->
+                                                                    (match p15 with
+                                                                    | XI p16 ->
+                                                                    (match p16 with
+                                                                    | XO p17 ->
+                                                                    (match p17 with
+                                                                    | XH ->
+                                                                    elems n'
+                                                                    (skip_ws
+                                                                    r'0)
+                                                                    | _ ->
+                                                                    None)
+                                                                    | _ ->
+                                                                    None)
+                                                                    | _ ->
+                                                                    None)
+                                                                    | _ ->
+                                                                    None)
+                                                                    | _ ->
+                                                                    None)
+                                                                    | XH ->
+                                                                    None)
+                                                                  | _ -> None))
+                                                            | None -> None)
+                                                       in elems f ((Zpos (XI
+                                                            (XO (XI (XI (XI
+                                                            x)))))) :: r'))
+                                                  | x ->
+                                                    let rec elems n0 b0 =
+                                                      match n0 with
+                                                      | O -> None
+                                                      | S n' ->
+                                                        (match g_value f b0 with
+                                                         | Some r0 ->
+                                                           (match skip_ws r0 with
+                                                            | [] -> None
+                                                            | z2 :: r'0 ->
+                                                              (match z2 with
+                                                               | Zpos p11 ->
+                                                                 (match p11 with
+                                                                  | XI p12 ->
+                                                                    (match p12 with
+                                                                    | XO p13 ->
+                                                                    (match p13 with
+                                                                    | XI p14 ->
+                                                                    (match p14 with
+                                                                    | XI p15 ->
+                                                                    (match p15 with
+                                                                    | XI p16 ->
+                                                                    (match p16 with
+                                                                    | XO p17 ->
+                                                                    (match p17 with
+                                                                    | XH ->
+                                                                    Some r'0
+                                                                    | _ ->
+                                                                    None)
+                                                                    | _ ->
+                                                                    None)
+                                                                    | _ ->
+                                                                    None)
+                                                                    | _ ->
+                                                                    None)
+                                                                    | _ ->
+                                                                    None)
+                                                                    | _ ->
+                                                                    None)
+                                                                  | XO p12 ->
+                                                                    (match p12 with
+                                                                    | XO p13 ->
+                                                                    (match p13 with
+                                                                    | XI p14 ->
+                                                                    (match p14 with
+                                                                    | XI p15 ->
+                                                                    (match p15 with
+                                                                    | XO p16 ->
+                                                                    (match p16 with
+                                                                    | XH ->
+                                                                    elems n'
+                                                                    (skip_ws
+                                                                    r'0)
+                                                                    | _ ->
+                                                                    None)
+                                                                    | _ ->
+                                                                    None)
+                                                                    | _ ->
+                                                                    None)
+                                                                    | _ ->
+                                                                    None)
+                                                                    | _ ->
+                                                                    None)
+                                                                  | XH -> None)
+                                                               | _ -> None))
+                                                         | None -> None)
+                                                    in elems f ((Zpos (XI (XO
+                                                         (XI (XI x))))) :: r'))
+                                               | x ->
+                                                 let rec elems n0 b0 =
+                                                   match n0 with
+                                                   | O -> None
+                                                   | S n' ->
+                                                     (match g_value f b0 with
+                                                      | Some r0 ->
+                                                        (match skip_ws r0 with
+                                                         | [] -> None
+                                                         | z2 :: r'0 ->
+                                                           (match z2 with
+                                                            | Zpos p10 ->
+                                                              (match p10 with
+                                                               | XI p11 ->
+                                                                 (match p11 with
+                                                                  | XO p12 ->
+                                                                    (match p12 with
+                                                                    | XI p13 ->
+                                                                    (match p13 with
+                                                                    | XI p14 ->
+                                                                    (match p14 with
+                                                                    | XI p15 ->
+                                                                    (match p15 with
+                                                                    | XO p16 ->
+                                                                    (match p16 with
+                                                                    | XH ->
+                                                                    Some r'0
+                                                                    | _ ->
+                                                                    None)
+                                                                    | _ ->
+                                                                    None)
+                                                                    | _ ->
+                                                                    None)
+                                                                    | _ ->
+                                                                    None)
+                                                                    | _ ->
+                                                                    None)
+                                                                  | _ -> None)
+                                                               | XO p11 ->
+                                                                 (match p11 with
+                                                                  | XO p12 ->
+                                                                    (match p12 with
+                                                                    | XI p13 ->
+                                                                    (match p13 with
+                                                                    | XI p14 ->
+                                                                    (match p14 with
+                                                                    | XO p15 ->
+                                                                    (match p15 with
+                                                                    | XH ->
+                                                                    elems n'
+                                                                    (skip_ws
+                                                                    r'0)
+                                                                    | _ ->
+                                                                    None)
+                                                                    | _ ->
+                                                                    None)
+                                                                    | _ ->
+                                                                    None)
+                                                                    | _ ->
+                                                                    None)
+                                                                  | _ -> None)
+                                                               | XH -> None)
+                                                            | _ -> None))
+                                                      | None -> None)
+                                                 in elems f ((Zpos (XI (XO
+                                                      (XI x)))) :: r'))
+                                            | x ->
+                                              let rec elems n0 b0 =
+                                                match n0 with
+                                                | O -> None
+                                                | S n' ->
+                                                  (match g_value f b0 with
+                                                   | Some r0 ->
+                                                     (match skip_ws r0 with
+                                                      | [] -> None
+                                                      | z2 :: r'0 ->
+                                                        (match z2 with
+                                                         | Zpos p9 ->
+                                                           (match p9 with
+                                                            | XI p10 ->
+                                                              (match p10 with
+                                                               | XO p11 ->
+                                                                 (match p11 with
+                                                                  | XI p12 ->
+                                                                    (match p12 with
+                                                                    | XI p13 ->
+                                                                    (match p13 with
+                                                                    | XI p14 ->
+                                                                    (match p14 with
+                                                                    | XO p15 ->
+                                                                    (match p15 with
+                                                                    | XH ->
+                                                                    Some r'0
+                                                                    | _ ->
+                                                                    None)
+                                                                    | _ ->
+                                                                    None)
+                                                                    | _ ->
+                                                                    None)
+                                                                    | _ ->
+                                                                    None)
+                                                                  | _ -> None)
+                                                               | _ -> None)
+                                                            | XO p10 ->
+                                                              (match p10 with
+                                                               | XO p11 ->
+                                                                 (match p11 with
+                                                                  | XI p12 ->
+                                                                    (match p12 with
+                                                                    | XI p13 ->
+                                                                    (match p13 with
+                                                                    | XO p14 ->
+                                                                    (match p14 with
+                                                                    | XH ->
+                                                                    elems n'
+                                                                    (skip_ws
+                                                                    r'0)
+                                                                    | _ ->
+                                                                    None)
+                                                                    | _ ->
+                                                                    None)
+                                                                    | _ ->
+                                                                    None)
+                                                                  | _ -> None)
+                                                               | _ -> None)
+                                                            | XH -> None)
+                                                         | _ -> None))
+                                                   | None -> None)
+                                              in elems f ((Zpos (XI (XO
+                                                   x))) :: r'))
+                                         | x ->
+                                           let rec elems n0 b0 =
+                                             match n0 with
+                                             | O -> None
+                                             | S n' ->
+                                               (match g_value f b0 with
+                                                | Some r0 ->
+                                                  (match skip_ws r0 with
+                                                   | [] -> None
+                                                   | z2 :: r'0 ->
+                                                     (match z2 with
+                                                      | Zpos p8 ->
+                                                        (match p8 with
+                                                         | XI p9 ->
+                                                           (match p9 with
+                                                            | XO p10 ->
+                                                              (match p10 with
+                                                               | XI p11 ->
+                                                                 (match p11 with
+                                                                  | XI p12 ->
+                                                                    (match p12 with
+                                                                    | XI p13 ->
+                                                                    (match p13 with
+                                                                    | XO p14 ->
+                                                                    (match p14 with
+                                                                    | XH ->
+                                                                    Some r'0
+                                                                    | _ ->
+                                                                    None)
+                                                                    | _ ->
+                                                                    None)
+                                                                    | _ ->
+                                                                    None)
+                                                                  | _ -> None)
+                                                               | _ -> None)
+                                                            | _ -> None)
+                                                         | XO p9 ->
+                                                           (match p9 with
+                                                            | XO p10 ->
+                                                              (match p10 with
+                                                               | XI p11 ->
+                                                                 (match p11 with
+                                                                  | XI p12 ->
+                                                                    (match p12 with
+                                                                    | XO p13 ->
+                                                                    (match p13 with
+                                                                    | XH ->
+                                                                    elems n'
+                                                                    (skip_ws
+                                                                    r'0)
+                                                                    | _ ->
+                                                                    None)
+                                                                    | _ ->
+                                                                    None)
+                                                                  | _ -> None)
+                                                               | _ -> None)
+                                                            | _ -> None)
+                                                         | XH -> None)
+                                                      | _ -> None))
+                                                | None -> None)
+                                           in elems f ((Zpos (XI x)) :: r'))
+                                      | x ->
+                                        let rec elems n0 b0 =
+                                          match n0 with
+                                          | O -> None
+                                          | S n' ->
+                                            (match g_value f b0 with
+                                             | Some r0 ->
+                                               (match skip_ws r0 with
+                                                | [] -> None
+                                                | z2 :: r'0 ->
+                                                  (match z2 with
+                                                   | Zpos p7 ->
+                                                     (match p7 with
+                                                      | XI p8 ->
+                                                        (match p8 with
+                                                         | XO p9 ->
+                                                           (match p9 with
+                                                            | XI p10 ->
+                                                              (match p10 with
+                                                               | XI p11 ->
+                                                                 (match p11 with
+                                                                  | XI p12 ->
+                                                                    (match p12 with
+                                                                    | XO p13 ->
+                                                                    (match p13 with
+                                                                    | XH ->
+                                                                    Some r'0
+                                                                    | _ ->
+                                                                    None)
+                                                                    | _ ->
+                                                                    None)
+                                                                  | _ -> None)
+                                                               | _ -> None)
+                                                            | _ -> None)
+                                                         | _ -> None)
+                                                      | XO p8 ->
+                                                        (match p8 with
+                                                         | XO p9 ->
+                                                           (match p9 with
+                                                            | XI p10 ->
+                                                              (match p10 with
+                                                               | XI p11 ->
+                                                                 (match p11 with
+                                                                  | XO p12 ->
+                                                                    (match p12 with
+                                                                    | XH ->
+                                                                    elems n'
+                                                                    (skip_ws
+                                                                    r'0)
+                                                                    | _ ->
+                                                                    None)
+                                                                  | _ -> None)
+                                                               | _ -> None)
+                                                            | _ -> None)
+                                                         | _ -> None)
+                                                      | XH -> None)
+                                                   | _ -> None))
+                                             | None -> None)
+                                        in elems f ((Zpos x) :: r'))
+                                   | x ->
+                                     let rec elems n0 b0 =
+                                       match n0 with
+                                       | O -> None
+                                       | S n' ->
+                                         (match g_value f b0 with
+                                          | Some r0 ->
+                                            (match skip_ws r0 with
+                                             | [] -> None
+                                             | z2 :: r'0 ->
+                                               (match z2 with
+                                                | Zpos p6 ->
+                                                  (match p6 with
+                                                   | XI p7 ->
+                                                     (match p7 with
+                                                      | XO p8 ->
+                                                        (match p8 with
+                                                         | XI p9 ->
+                                                           (match p9 with
+                                                            | XI p10 ->
+                                                              (match p10 with
+                                                               | XI p11 ->
+                                                                 (match p11 with
+                                                                  | XO p12 ->
+                                                                    (match p12 with
+                                                                    | XH ->
+                                                                    Some r'0
+                                                                    | _ ->
+                                                                    None)
+                                                                  | _ -> None)
+                                                               | _ -> None)
+                                                            | _ -> None)
+                                                         | _ -> None)
+                                                      | _ -> None)
+                                                   | XO p7 ->
+                                                     (match p7 with
+                                                      | XO p8 ->
+                                                        (match p8 with
+                                                         | XI p9 ->
+                                                           (match p9 with
+                                                            | XI p10 ->
+                                                              (match p10 with
+                                                               | XO p11 ->
+                                                                 (match p11 with
+                                                                  | XH ->
+                                                                    elems n'
+                                                                    (skip_ws
+                                                                    r'0)
+                                                                  | _ -> None)
+                                                               | _ -> None)
+                                                            | _ -> None)
+                                                         | _ -> None)
+                                                      | _ -> None)
+                                                   | XH -> None)
+                                                | _ -> None))
+                                          | None -> None)
+                                     in elems f (x :: r')))
+                             | _ -> g_number b)
+                          | XH -> g_number b)
+                       | _ -> g_number b)
+                    | _ -> g_number b)
+                 | _ -> g_number b)
+              | _ -> g_number b)
+           | XO p0 ->
+             (match p0 with
+              | XI p1 ->
+                (match p1 with
+                 | XI p2 ->
+                   (match p2 with
+                    | XI p3 ->
+                      (match p3 with
+                       | XO p4 ->
+                         (match p4 with
+                          | XI p5 ->
+                            (match p5 with
+                             | XH ->
+                               (match r with
+                                | [] -> g_number b
+                                | z1 :: l ->
+                                  (match z1 with
+                                   | Zpos p6 ->
+                                     (match p6 with
+                                      | XI p7 ->
+                                        (match p7 with
+                                         | XO p8 ->
+                                           (match p8 with
+                                            | XI p9 ->
+                                              (match p9 with
+                                               | XO p10 ->
+                                                 (match p10 with
+                                                  | XI p11 ->
+                                                    (match p11 with
+                                                     | XI p12 ->
+                                                       (match p12 with
+                                                        | XH ->
+                                                          (match l with
+                                                           | [] -> g_number b
+                                                           | z2 :: l0 ->
+                                                             (match z2 with
+                                                              | Zpos p13 ->
+                                                                (match p13 with
+                                                                 | XO p14 ->
+                                                                   (match p14 with
+                                                                    | XO p15 ->
+                                                                    (match p15 with
+                                                                    | XI p16 ->
+                                                                    (match p16 with
+                                                                    | XI p17 ->
+                                                                    (match p17 with
+                                                                    | XO p18 ->
+                                                                    (match p18 with
+                                                                    | XI p19 ->
+                                                                    (match p19 with
+                                                                    | XH ->
+                                                                    (match l0 with
+                                                                    | [] ->
+                                                                    g_number b
+                                                                    | z3 :: r0 ->
+                                                                    (match z3 with
+                                                                    | Zpos p20 ->
+                                                                    (match p20 with
+                                                                    | XO p21 ->
+                                                                    (match p21 with
+                                                                    | XO p22 ->
+                                                                    (match p22 with
+                                                                    | XI p23 ->
+                                                                    (match p23 with
+                                                                    | XI p24 ->
+                                                                    (match p24 with
+                                                                    | XO p25 ->
+                                                                    (match p25 with
+                                                                    | XI p26 ->
+                                                                    (match p26 with
+                                                                    | XH ->
+                                                                    Some r0
+                                                                    | _ ->
+                                                                    g_number b)
+                                                                    | _ ->
+                                                                    g_number b)
+                                                                    | _ ->
+                                                                    g_number b)
+                                                                    | _ ->
+                                                                    g_number b)
+                                                                    | _ ->
+                                                                    g_number b)
+                                                                    | _ ->
+                                                                    g_number b)
+                                                                    | _ ->
+                                                                    g_number b)
+                                                                    | _ ->
+                                                                    g_number b))
+                                                                    | _ ->
+                                                                    g_number b)
+                                                                    | _ ->
+                                                                    g_number b)
+                                                                    | _ ->
+                                                                    g_number b)
+                                                                    | _ ->
+                                                                    g_number b)
+                                                                    | _ ->
+                                                                    g_number b)
+                                                                    | _ ->
+                                                                    g_number b)
+                                                                 | _ ->
+                                                                   g_number b)
+                                                              | _ ->
+                                                                g_number b))
+                                                        | _ -> g_number b)
+                                                     | _ -> g_number b)
+                                                  | _ -> g_number b)
+                                               | _ -> g_number b)
+                                            | _ -> g_number b)
+                                         | _ -> g_number b)
+                                      | _ -> g_number b)
+                                   | _ -> g_number b))
+                             | _ -> g_number b)
+                          | _ -> g_number b)
+                       | _ -> g_number b)
+                    | XO p3 ->
+                      (match p3 with
+                       | XO p4 ->
+                         (match p4 with
+                          | XI p5 ->
+                            (match p5 with
+                             | XH ->
+                               (match r with
+                                | [] -> g_number b
+                                | z1 :: l ->
+                                  (match z1 with
+                                   | Zpos p6 ->
+                                     (match p6 with
+                                      | XI p7 ->
+                                        (match p7 with
+                                         | XO p8 ->
+                                           (match p8 with
+                                            | XO p9 ->
+                                              (match p9 with
+                                               | XO p10 ->
+                                                 (match p10 with
+                                                  | XO p11 ->
+                                                    (match p11 with
+                                                     | XI p12 ->
+                                                       (match p12 with
+                                                        | XH ->
+                                                          (match l with
+                                                           | [] -> g_number b
+                                                           | z2 :: l0 ->
+                                                             (match z2 with
+                                                              | Zpos p13 ->
+                                                                (match p13 with
+                                                                 | XO p14 ->
+                                                                   (match p14 with
+                                                                    | XO p15 ->
+                                                                    (match p15 with
+                                                                    | XI p16 ->
+                                                                    (match p16 with
+                                                                    | XI p17 ->
+                                                                    (match p17 with
+                                                                    | XO p18 ->
+                                                                    (match p18 with
+                                                                    | XI p19 ->
+                                                                    (match p19 with
+                                                                    | XH ->
+                                                                    (match l0 with
+                                                                    | [] ->
+                                                                    g_number b
+                                                                    | z3 :: l1 ->
+                                                                    (match z3 with
+                                                                    | Zpos p20 ->
+                                                                    (match p20 with
+                                                                    | XI p21 ->
+                                                                    (match p21 with
+                                                                    | XI p22 ->
+                                                                    (match p22 with
+                                                                    | XO p23 ->
+                                                                    (match p23 with
+                                                                    | XO p24 ->
+                                                                    (match p24 with
+                                                                    | XI p25 ->
+                                                                    (match p25 with
+                                                                    | XI p26 ->
+                                                                    (match p26 with
+                                                                    | XH ->
+                                                                    (match l1 with
+                                                                    | [] ->
+                                                                    g_number b
+                                                                    | z4 :: r0 ->
+                                                                    (match z4 with
+                                                                    | Zpos p27 ->
+                                                                    (match p27 with
+                                                                    | XI p28 ->
+                                                                    (match p28 with
+                                                                    | XO p29 ->
+                                                                    (match p29 with
+                                                                    | XI p30 ->
+                                                                    (match p30 with
+                                                                    | XO p31 ->
+                                                                    (match p31 with
+                                                                    | XO p32 ->
+                                                                    (match p32 with
+                                                                    | XI p33 ->
+                                                                    (match p33 with
+                                                                    | XH ->
+                                                                    Some r0
+                                                                    | _ ->
+                                                                    g_number b)
+                                                                    | _ ->
+                                                                    g_number b)
+                                                                    | _ ->
+                                                                    g_number b)
+                                                                    | _ ->
+                                                                    g_number b)
+                                                                    | _ ->
+                                                                    g_number b)
+                                                                    | _ ->
+                                                                    g_number b)
+                                                                    | _ ->
+                                                                    g_number b)
+                                                                    | _ ->
+                                                                    g_number b))
+                                                                    | _ ->
+                                                                    g_number b)
+                                                                    | _ ->
+                                                                    g_number b)
+                                                                    | _ ->
+                                                                    g_number b)
+                                                                    | _ ->
+                                                                    g_number b)
+                                                                    | _ ->
+                                                                    g_number b)
+                                                                    | _ ->
+                                                                    g_number b)
+                                                                    | _ ->
+                                                                    g_number b)
+                                                                    | _ ->
+                                                                    g_number b))
+                                                                    | _ ->
+                                                                    g_number b)
+                                                                    | _ ->
+                                                                    g_number b)
+                                                                    | _ ->
+                                                                    g_number b)
+                                                                    | _ ->
+                                                                    g_number b)
+                                                                    | _ ->
+                                                                    g_number b)
+                                                                    | _ ->
+                                                                    g_number b)
+                                                                 | _ ->
+                                                                   g_number b)
+                                                              | _ ->
+                                                                g_number b))
+                                                        | _ -> g_number b)
+                                                     | _ -> g_number b)
+                                                  | _ -> g_number b)
+                                               | _ -> g_number b)
+                                            | _ -> g_number b)
+                                         | _ -> g_number b)
+                                      | _ -> g_number b)
+                                   | _ -> g_number b))
+                             | _ -> g_number b)
+                          | _ -> g_number b)
+                       | _ -> g_number b)
+                    | XH -> g_number b)
+                 | XO p2 ->
+                   (match p2 with
+                    | XO p3 ->
+                      (match p3 with
+                       | XO p4 ->
+                         (match p4 with
+                          | XH -> g_string r
+                          | _ -> g_number b)
+                       | _ -> g_number b)
+                    | _ -> g_number b)
+                 | XH -> g_number b)
+              | XO p1 ->
+                (match p1 with
+                 | XI p2 ->
+                   (match p2 with
+                    | XO p3 ->
+                      (match p3 with
+                       | XI p4 ->
+                         (match p4 with
+                          | XI p5 ->
+                            (match p5 with
+                             | XH ->
+                               (match r with
+                                | [] -> g_number b
+                                | z1 :: l ->
+                                  (match z1 with
+                                   | Zpos p6 ->
+                                     (match p6 with
+                                      | XO p7 ->
+                                        (match p7 with
+                                         | XI p8 ->
+                                           (match p8 with
+                                            | XO p9 ->
+                                              (match p9 with
+                                               | XO p10 ->
+                                                 (match p10 with
+                                                  | XI p11 ->
+                                                    (match p11 with
+                                                     | XI p12 ->
+                                                       (match p12 with
+                                                        | XH ->
+                                                          (match l with
+                                                           | [] -> g_number b
+                                                           | z2 :: l0 ->
+                                                             (match z2 with
+                                                              | Zpos p13 ->
+                                                                (match p13 with
+                                                                 | XI p14 ->
+                                                                   (match p14 with
+                                                                    | XO p15 ->
+                                                                    (match p15 with
+                                                                    | XI p16 ->
+                                                                    (match p16 with
+                                                                    | XO p17 ->
+                                                                    (match p17 with
+                                                                    | XI p18 ->
+                                                                    (match p18 with
+                                                                    | XI p19 ->
+                                                                    (match p19 with
+                                                                    | XH ->
+                                                                    (match l0 with
+                                                                    | [] ->
+                                                                    g_number b
+                                                                    | z3 :: r0 ->
+                                                                    (match z3 with
+                                                                    | Zpos p20 ->
+                                                                    (match p20 with
+                                                                    | XI p21 ->
+                                                                    (match p21 with
+                                                                    | XO p22 ->
+                                                                    (match p22 with
+                                                                    | XI p23 ->
+                                                                    (match p23 with
+                                                                    | XO p24 ->
+                                                                    (match p24 with
+                                                                    | XO p25 ->
+                                                                    (match p25 with
+                                                                    | XI p26 ->
+                                                                    (match p26 with
+                                                                    | XH ->
+                                                                    Some r0
+                                                                    | _ ->
+                                                                    g_number b)
+                                                                    | _ ->
+                                                                    g_number b)
+                                                                    | _ ->
+                                                                    g_number b)
+                                                                    | _ ->
+                                                                    g_number b)
+                                                                    | _ ->
+                                                                    g_number b)
+                                                                    | _ ->
+                                                                    g_number b)
+                                                                    | _ ->
+                                                                    g_number b)
+                                                                    | _ ->
+                                                                    g_number b))
+                                                                    | _ ->
+                                                                    g_number b)
+                                                                    | _ ->
+                                                                    g_number b)
+                                                                    | _ ->
+                                                                    g_number b)
+                                                                    | _ ->
+                                                                    g_number b)
+                                                                    | _ ->
+                                                                    g_number b)
+                                                                    | _ ->
+                                                                    g_number b)
+                                                                 | _ ->
+                                                                   g_number b)
+                                                              | _ ->
+                                                                g_number b))
+                                                        | _ -> g_number b)
+                                                     | _ -> g_number b)
+                                                  | _ -> g_number b)
+                                               | _ -> g_number b)
+                                            | _ -> g_number b)
+                                         | _ -> g_number b)
+                                      | _ -> g_number b)
+                                   | _ -> g_number b))
+                             | _ -> g_number b)
+                          | _ -> g_number b)
+                       | _ -> g_number b)
+                    | _ -> g_number b)
+                 | _ -> g_number b)
+              | XH -> g_number b)
+           | XH -> g_number b)
+        | _ -> g_number b))
+
+(** val g_valid : bytes -> bool **)
+
+let g_valid b =
+  match g_value (S (length b)) (skip_ws b) with
+  | Some r -> (match skip_ws r with
+               | [] -> true
+               | _ :: _ -> false)
+  | None -> false
+
+(** val max_depth_from : z -> z -> bool -> bool -> bytes -> z **)
+
+let rec max_depth_from cur mx instr esc = function
+| [] -> mx
+| c :: r ->
+  if instr
+  then if esc
+       then max_depth_from cur mx true false r
+       else if Z.eqb c (Zpos (XO (XO (XI (XI (XI (XO XH)))))))
+            then max_depth_from cur mx true true r
+            else if Z.eqb c (Zpos (XO (XI (XO (XO (XO XH))))))
+                 then max_depth_from cur mx false false r
+                 else max_depth_from cur mx true false r
+  else if Z.eqb c (Zpos (XO (XI (XO (XO (XO XH))))))
+       then max_depth_from cur mx true false r
+       else if (||) (Z.eqb c (Zpos (XI (XI (XO (XI (XI (XO XH))))))))
+                 (Z.eqb c (Zpos (XI (XI (XO (XI (XI (XI XH))))))))
+            then max_depth_from (Z.add cur (Zpos XH))
+                   (Z.max mx (Z.add cur (Zpos XH))) false false r
+            else if (||) (Z.eqb c (Zpos (XI (XO (XI (XI (XI (XO XH))))))))
+                      (Z.eqb c (Zpos (XI (XO (XI (XI (XI (XI XH))))))))
+                 then max_depth_from (Z.sub cur (Zpos XH)) mx false false r
+                 else max_depth_from cur mx false false r
+
+(** val max_depth : bytes -> z **)
+
+let max_depth b =
+  max_depth_from Z0 Z0 false false b
+
+(** val std_valid : bytes -> bool **)
+
+let std_valid b =
+  (&&) (g_valid b)
+    (Z.leb (max_depth b) (Zpos (XO (XO (XO (XO (XI (XO (XO (XO (XI (XI (XI
+      (XO (XO XH)))))))))))))))
+
+(** val needs_escape_json : bool -> z -> bool **)
+
+let needs_escape_json html c =
+  (||)
+    ((||)
+      ((||)
+        ((||) (Z.ltb c (Zpos (XO (XO (XO (XO (XO XH)))))))
+          (Z.ltb (Zpos (XI (XI (XI (XI (XI (XI XH))))))) c))
+        (Z.eqb c (Zpos (XO (XI (XO (XO (XO XH))))))))
+      (Z.eqb c (Zpos (XO (XO (XI (XI (XI (XO XH)))))))))
+    ((&&) html
+      ((||)
+        ((||) (Z.eqb c (Zpos (XO (XO (XI (XI (XI XH)))))))
+          (Z.eqb c (Zpos (XO (XI (XI (XI (XI XH))))))))
+        (Z.eqb c (Zpos (XO (XI (XI (XO (XO XH)))))))))
+
+(** val first_index : (z -> bool) -> z -> bytes -> z **)
+
+let rec first_index p i = function
+| [] -> Zneg XH
+| c :: r -> if p c then i else first_index p (Z.add i (Zpos XH)) r
